@@ -213,3 +213,1532 @@ Lemma scrub_fams_nonempty tf fs : all_known tf fs -> (scrub_fams tf fs <> [] <->
 Proof.
   intros Hk. rewrite (scrub_fams_nil tf fs Hk), is_empty_fams_flatten. tauto.
 Qed.
+
+(* ------------------------------------------------------------------ *)
+(* validation *)
+Lemma fix_all_forallb (g : rfilter -> bool) l :
+  (fix all (l : list rfilter) := match l with [] => true | x :: r => g x && all r end) l = forallb g l.
+Proof. induction l as [|x r IH]; cbn; [reflexivity|]. rewrite IH. reflexivity. Qed.
+
+Lemma fvalid_chain l : fvalid (FChain l) = (2 <=? length l)%nat && forallb fvalid l.
+Proof. cbn [fvalid]. rewrite fix_all_forallb. reflexivity. Qed.
+Lemma fvalid_interleave l : fvalid (FInterleave l) = (2 <=? length l)%nat && forallb fvalid l.
+Proof. cbn [fvalid]. rewrite fix_all_forallb. reflexivity. Qed.
+
+(* what the validator accepts, declaratively *)
+Inductive valid_filter : rfilter -> Prop :=
+| VPass : valid_filter (FPass true)                       (* pass_all / block_all must be set to true *)
+| VBlock : valid_filter (FBlock true)
+| VChain l : (2 <= length l)%nat -> Forall valid_filter l -> valid_filter (FChain l)
+| VInterleave l : (2 <= length l)%nat -> Forall valid_filter l -> valid_filter (FInterleave l)
+| VCondition p t e : valid_filter p -> Forall valid_filter (opt_list t) -> Forall valid_filter (opt_list e) ->
+                     valid_filter (FCondition p t e)
+| VRowKeyRegex r : valid_filter (FRowKeyRegex (RxOk r))   (* the pattern compiles *)
+| VFamilyRegex r : valid_filter (FFamilyRegex (RxOk r))
+| VQualRegex r : valid_filter (FQualRegex (RxOk r))
+| VValueRegex r : valid_filter (FValueRegex (RxOk r))
+| VColRange fam s e : valid_filter (FColRange fam s e)
+| VValueRange s e : valid_filter (FValueRange s e)
+| VTsRange s e : (1000 | s) -> (1000 | e) -> valid_filter (FTsRange s e)   (* millisecond granularity *)
+| VRowLimit n : 0 <= n -> valid_filter (FCellsPerRowLimit n)
+| VRowOffset n : 0 <= n -> valid_filter (FCellsPerRowOffset n)
+| VColLimit n : 0 <= n -> valid_filter (FCellsPerColLimit n)
+| VStrip : valid_filter FStrip
+| VLabel l : (exists c, In c l /\ is_label_char c = true) -> valid_filter (FLabel l)
+| VSample : valid_filter (FSample true).                   (* probability strictly between 0 and 1 *)
+
+Lemma rem1000 z : (Z.rem z 1000 =? 0) = true <-> (1000 | z).
+Proof. rewrite Z.eqb_eq. apply Z.rem_divide. discriminate. Qed.
+
+Lemma Forall_forallb {A} (g : A -> bool) (P : A -> Prop) l :
+  Forall (fun x => g x = true <-> P x) l -> (forallb g l = true <-> Forall P l).
+Proof.
+  induction 1 as [|x l Hx _ IH]; cbn [forallb].
+  - split; constructor.
+  - rewrite andb_true_iff, Hx, IH. split.
+    + intros [? ?]. constructor; assumption.
+    + intros H. inversion H; subst. auto.
+Qed.
+
+Theorem fvalid_spec : forall f, fvalid f = true <-> valid_filter f.
+Proof.
+  induction f as [f IH] using rfilter_ind'.
+  destruct f as [b|b|l|l|p t e|r|r|r|r|fm s e|s e|s e|n|n|n| |lb|v]; cbn [subs] in IH.
+  - destruct b; cbn; (split; [try discriminate; intros _; constructor|intros H; inversion H; reflexivity]).
+  - destruct b; cbn; (split; [try discriminate; intros _; constructor|intros H; inversion H; reflexivity]).
+  - rewrite fvalid_chain, andb_true_iff, (Forall_forallb _ _ _ IH), Nat.leb_le. split.
+    + intros [? ?]. constructor; assumption.
+    + intros H. inversion H; subst. auto.
+  - rewrite fvalid_interleave, andb_true_iff, (Forall_forallb _ _ _ IH), Nat.leb_le. split.
+    + intros [? ?]. constructor; assumption.
+    + intros H. inversion H; subst. auto.
+  - inversion IH as [|? ? Hp Hte]; subst. apply Forall_app in Hte. destruct Hte as [Ht He].
+    cbn [fvalid]. rewrite !andb_true_iff, Hp.
+    assert (Ht' : match t with Some x => fvalid x | None => true end = true <-> Forall valid_filter (opt_list t)).
+    { destruct t as [x|]; cbn in *; [|split; constructor]. inversion Ht as [|? ? Hx _]; subst. rewrite Hx.
+      split; [intros; repeat constructor; assumption|intros H; inversion H; assumption]. }
+    assert (He' : match e with Some x => fvalid x | None => true end = true <-> Forall valid_filter (opt_list e)).
+    { destruct e as [x|]; cbn in *; [|split; constructor]. inversion He as [|? ? Hx _]; subst. rewrite Hx.
+      split; [intros; repeat constructor; assumption|intros H; inversion H; assumption]. }
+    rewrite Ht', He'. split.
+    + intros [[? ?] ?]. constructor; assumption.
+    + intros H. inversion H; subst. auto.
+  - destruct r; cbn; (split; [try discriminate; intros _; constructor|intros H; inversion H; reflexivity]).
+  - destruct r; cbn; (split; [try discriminate; intros _; constructor|intros H; inversion H; reflexivity]).
+  - destruct r; cbn; (split; [try discriminate; intros _; constructor|intros H; inversion H; reflexivity]).
+  - destruct r; cbn; (split; [try discriminate; intros _; constructor|intros H; inversion H; reflexivity]).
+  - cbn. split; [constructor|reflexivity].
+  - cbn. split; [constructor|reflexivity].
+  - cbn [fvalid]. rewrite andb_true_iff, !rem1000. split.
+    + intros [? ?]. constructor; assumption.
+    + intros H. inversion H; subst. auto.
+  - cbn [fvalid]. rewrite Z.leb_le. split; [constructor; assumption|intros H; inversion H; assumption].
+  - cbn [fvalid]. rewrite Z.leb_le. split; [constructor; assumption|intros H; inversion H; assumption].
+  - cbn [fvalid]. rewrite Z.leb_le. split; [constructor; assumption|intros H; inversion H; assumption].
+  - cbn. split; [constructor|reflexivity].
+  - cbn [fvalid]. rewrite existsb_exists. split; [constructor; assumption|intros H; inversion H; assumption].
+  - destruct v; cbn; (split; [try discriminate; intros _; constructor|intros H; inversion H; reflexivity]).
+Qed.
+
+(* an invalid filter is rejected before anything is read or written *)
+Theorem invalid_rejected : forall s tbl t f now coins,
+  alookup tbl s = Some t -> fvalid f = false ->
+  (forall keys ranges limit,
+      step s (mkCall (BReadRows tbl keys ranges (Some f) limit) now coins) = (s, fail cInvalidArgument))
+  /\ (forall key tm fm,
+      step s (mkCall (BCheckAndMutate tbl key (Some f) tm fm) now coins) = (s, fail cInvalidArgument)).
+Proof.
+  intros s tbl t f now coins Ht Hv. split.
+  - intros keys ranges limit. unfold step. cbn [cl_req cl_now cl_coins]. rewrite Ht, Hv.
+    destruct (negb (forallb range_ok ranges)); reflexivity.
+  - intros key tm fm. unfold step. cbn [cl_req cl_now cl_coins]. rewrite Ht, Hv. reflexivity.
+Qed.
+
+(* the sample filter lets the whole row through or nothing, as the coin says *)
+Theorem sample_all_or_nothing : forall key fs c coins,
+  feval key (FSample true) fs (c :: coins) = (c, fs, coins).
+Proof. reflexivity. Qed.
+
+(* ------------------------------------------------------------------ *)
+(* per-leaf boundary lemmas, in terms of the order relations of Common/Bytes.v *)
+Definition lower_in (b : bound) (x : bytes) : Prop :=
+  match b with BUnset => True | BClosed k => lex_le k x | BOpen k => lex_lt k x end.
+Definition upper_in (b : bound) (x : bytes) : Prop :=
+  match b with BUnset => True | BClosed k => lex_le x k | BOpen k => lex_lt x k end.
+
+Lemma lex_ltb_lt a b : lex_ltb a b = true <-> lex_lt a b.
+Proof. unfold lex_ltb, lex_lt. destruct (lex_cmp a b); split; congruence. Qed.
+Lemma lex_leb_le a b : lex_leb a b = true <-> lex_le a b.
+Proof. unfold lex_leb, lex_le. destruct (lex_cmp a b); split; congruence. Qed.
+Lemma lex_leb_negb a b : lex_leb a b = negb (lex_ltb b a).
+Proof. unfold lex_leb, lex_ltb. rewrite (lex_antisym a b). destruct (lex_cmp a b); reflexivity. Qed.
+
+Lemma in_lower_spec b x : in_lower b x = true <-> lower_in b x.
+Proof. destruct b; cbn; [tauto|apply lex_leb_le|apply lex_ltb_lt]. Qed.
+Lemma in_upper_spec b x : in_upper b x = true <-> upper_in b x.
+Proof. destruct b; cbn; [tauto|apply lex_leb_le|apply lex_ltb_lt]. Qed.
+
+Theorem column_range_spec : forall fam s e f q c,
+  include_cell (FColRange fam s e) f q c = true <-> f = fam /\ lower_in s q /\ upper_in e q.
+Proof.
+  intros. cbn [include_cell]. rewrite !andb_true_iff, beqb_eq, in_lower_spec, in_upper_spec. tauto.
+Qed.
+
+Theorem value_range_spec : forall s e f q c,
+  include_cell (FValueRange s e) f q c = true <-> lower_in s (c_val c) /\ upper_in e (c_val c).
+Proof. intros. cbn [include_cell]. rewrite andb_true_iff, in_lower_spec, in_upper_spec. tauto. Qed.
+
+(* start inclusive, end exclusive, end 0 = unbounded *)
+Theorem ts_range_spec : forall s e f q c,
+  include_cell (FTsRange s e) f q c = true <-> s <= c_ts c /\ (e = 0 \/ c_ts c < e).
+Proof. intros. cbn [include_cell]. lia. Qed.
+
+(* the regex leaves: whole-field, bytewise match *)
+Theorem regex_leaf_spec : forall r f q c,
+  (include_cell (FFamilyRegex (RxOk r)) f q c = true <-> lang r f)
+  /\ (include_cell (FQualRegex (RxOk r)) f q c = true <-> lang r q)
+  /\ (include_cell (FValueRegex (RxOk r)) f q c = true <-> lang r (c_val c)).
+Proof. intros. cbn. rewrite <- !regex_matcher_correct. tauto. Qed.
+
+(* ------------------------------------------------------------------ *)
+(* a row as a list of column blocks *)
+Definition tagc (k : col_key) (c : cell) : lcell := (fst k, snd k, c).
+Definition block := (col_key * list cell)%type.
+Definition fam_blocks (f : family) : list block :=
+  map (fun c => ((fam_name f, col_q c), col_cells c)) (fam_cols f).
+Definition blocks (fs : list family) : list block := flat_map fam_blocks fs.
+Definition unblock (b : block) : list lcell := map (tagc (fst b)) (snd b).
+Definition unblocks (bs : list block) : list lcell := flat_map unblock bs.
+Definition keys (fs : list family) : list col_key := map fst (blocks fs).
+
+Lemma flatten_blocks fs : flatten fs = unblocks (blocks fs).
+Proof.
+  unfold flatten, unblocks, blocks. induction fs as [|f r IH]; cbn [flat_map]; [reflexivity|].
+  rewrite flat_map_app, IH. f_equal. unfold flatten_fam, fam_blocks.
+  induction (fam_cols f) as [|c cs IHc]; cbn [flat_map map]; [reflexivity|]. rewrite IHc. reflexivity.
+Qed.
+
+Lemma unblocks_app a b : unblocks (a ++ b) = unblocks a ++ unblocks b.
+Proof. apply flat_map_app. Qed.
+Lemma unblocks_cons b bs : unblocks (b :: bs) = unblock b ++ unblocks bs.
+Proof. reflexivity. Qed.
+
+Lemma blocks_map_cols (g : bytes -> bytes -> list cell -> list cell) fs :
+  blocks (map_cols (fun fam c => mkCol (col_q c) (g fam (col_q c) (col_cells c))) fs)
+  = map (fun b => (fst b, g (fst (fst b)) (snd (fst b)) (snd b))) (blocks fs).
+Proof.
+  unfold blocks, map_cols. induction fs as [|f r IH]; cbn [map flat_map]; [reflexivity|].
+  rewrite map_app, IH. f_equal. unfold fam_blocks. cbn [fam_name fam_cols]. rewrite !map_map. reflexivity.
+Qed.
+
+(* the representation invariant needed here: distinct family names, distinct qualifiers *)
+Definition skel_ok (fs : list family) : Prop :=
+  NoDup (map fam_name fs) /\ Forall (fun f => NoDup (map col_q (fam_cols f))) fs.
+
+Lemma fams_ok_skel_ok fs : fams_ok fs -> skel_ok fs.
+Proof.
+  intros [Hn Hf]. split; [exact Hn|]. eapply Forall_impl; [|exact Hf]. intros f [H _]. exact H.
+Qed.
+
+Lemma keys_in fs k : In k (keys fs) -> In (fst k) (map fam_name fs).
+Proof.
+  unfold keys, blocks. rewrite in_map_iff. intros ((k', cs) & <- & Hin). apply in_flat_map in Hin.
+  destruct Hin as (f & Hf & Hb). unfold fam_blocks in Hb. apply in_map_iff in Hb.
+  destruct Hb as (c & E & _). inversion E; subst. cbn. apply in_map. exact Hf.
+Qed.
+
+Lemma NoDup_app_intro {A} (a b : list A) :
+  NoDup a -> NoDup b -> (forall x, In x a -> In x b -> False) -> NoDup (a ++ b).
+Proof.
+  induction a as [|x a IH]; intros Ha Hb Hd; cbn; [exact Hb|].
+  inversion Ha; subst. constructor.
+  - rewrite in_app_iff. intros [H|H]; [auto|]. apply (Hd x); [left; reflexivity|exact H].
+  - apply IH; auto. intros y Hy. apply Hd. right. exact Hy.
+Qed.
+
+Lemma NoDup_app_inv {A} (a b : list A) :
+  NoDup (a ++ b) -> NoDup a /\ NoDup b /\ (forall x, In x a -> In x b -> False).
+Proof.
+  induction a as [|x a IH]; cbn; intros H.
+  - split; [constructor|]. split; [exact H|]. intros x [].
+  - inversion H as [|? ? Hx Hr]; subst. destruct (IH Hr) as (Ha & Hb & Hd). split; [|split].
+    + constructor; [|exact Ha]. intros Hin. apply Hx. apply in_app_iff. auto.
+    + exact Hb.
+    + intros y [<-|Hy] Hyb; [apply Hx; apply in_app_iff; auto|apply (Hd y); assumption].
+Qed.
+
+Lemma keys_nodup fs : skel_ok fs -> NoDup (keys fs).
+Proof.
+  unfold keys, blocks. intros [Hn Hf]. induction fs as [|f r IH]; cbn [flat_map map]; [constructor|].
+  inversion Hn as [|? ? Hnf Hnr]; subst. inversion Hf as [|? ? Hq Hfr]; subst.
+  rewrite map_app. apply NoDup_app_intro.
+  - unfold fam_blocks. rewrite map_map. cbn [fst].
+    clear -Hq. induction (fam_cols f) as [|c cs IHc]; cbn [map]; [constructor|].
+    inversion Hq as [|? ? Hc Hcs]; subst. constructor; [|apply IHc; exact Hcs].
+    intros Hin. apply Hc. apply in_map_iff in Hin. destruct Hin as (c' & E & Hc'). inversion E.
+    apply in_map_iff. exists c'. auto.
+  - apply IH; assumption.
+  - intros k Hk1 Hk2. apply Hnf. apply (keys_in r k) in Hk2.
+    unfold fam_blocks in Hk1. rewrite map_map in Hk1. apply in_map_iff in Hk1.
+    destruct Hk1 as (c & <- & _). exact Hk2.
+Qed.
+
+(* ------------------------------------------------------------------ *)
+(* the per-cell filters *)
+Definition linc (f : rfilter) (x : lcell) : bool := include_cell f (lc_fam x) (lc_q x) (lc_cell x).
+Definition lmod (f : rfilter) (x : lcell) : lcell := (lc_fam x, lc_q x, modify_cell f (lc_cell x)).
+
+Lemma filter_map_comm {A B} (g : A -> B) (p : B -> bool) l :
+  filter p (map g l) = map g (filter (fun x => p (g x)) l).
+Proof. induction l as [|x l IH]; cbn; [reflexivity|]. destruct (p (g x)); cbn; rewrite IH; reflexivity. Qed.
+
+Lemma per_cell_flatten f fs : flatten (per_cell f fs) = map (lmod f) (filter (linc f) (flatten fs)).
+Proof.
+  unfold per_cell, map_cols, flatten. induction fs as [|fm r IH]; cbn [map flat_map]; [reflexivity|].
+  rewrite filter_app, map_app, IH. f_equal. unfold flatten_fam. cbn [fam_name fam_cols].
+  induction (fam_cols fm) as [|c cs IHc]; cbn [map flat_map]; [reflexivity|].
+  rewrite filter_app, map_app, IHc. f_equal. unfold flatten_col. cbn [col_q col_cells].
+  rewrite filter_map_comm, !map_map. reflexivity.
+Qed.
+
+Lemma lower_ok_eq b x : in_lower b x = lower_ok b x.
+Proof. destruct b; cbn; [reflexivity| |reflexivity]. unfold lex_geb. apply lex_leb_negb. Qed.
+Lemma upper_ok_eq b x : in_upper b x = upper_ok b x.
+Proof. destruct b; cbn; [reflexivity| |reflexivity]. apply lex_leb_negb. Qed.
+
+Definition is_per_cell (f : rfilter) : bool :=
+  match f with
+  | FFamilyRegex _ | FQualRegex _ | FValueRegex _ | FColRange _ _ _ | FValueRange _ _ | FTsRange _ _
+  | FStrip | FLabel _ => true
+  | _ => false
+  end.
+
+Lemma lcell_eta (x : lcell) : (lc_fam x, lc_q x, lc_cell x) = x.
+Proof. destruct x as [[a b] c]. reflexivity. Qed.
+
+Lemma filter_true {A} (l : list A) : filter (fun _ => true) l = l.
+Proof. induction l as [|x l IH]; cbn; [reflexivity|]. rewrite IH. reflexivity. Qed.
+
+Lemma per_cell_sem key f l coins : is_per_cell f = true -> fvalid f = true ->
+  fsem key f l coins = (map (lmod f) (filter (linc f) l), coins).
+Proof.
+  assert (Hid : forall g, (forall x, lmod g x = x) -> forall l', map (lmod g) l' = l').
+  { intros g Hg l'. rewrite (map_ext _ (fun x => x) Hg). apply map_id. }
+  destruct f as [b|b|fl|fl|p t e|r|r|r|r|fm s e|s e|s e|n|n|n| |lb|v]; try discriminate; intros _ Hv;
+    cbn [fsem]; f_equal.
+  - destruct r as [|r]; [discriminate|]. rewrite Hid by (intros x; apply lcell_eta). reflexivity.
+  - destruct r as [|r]; [discriminate|]. rewrite Hid by (intros x; apply lcell_eta). reflexivity.
+  - destruct r as [|r]; [discriminate|]. rewrite Hid by (intros x; apply lcell_eta). reflexivity.
+  - rewrite Hid by (intros x; apply lcell_eta). apply filter_ext. intros x. unfold linc. cbn.
+    rewrite lower_ok_eq, upper_ok_eq. reflexivity.
+  - rewrite Hid by (intros x; apply lcell_eta). apply filter_ext. intros x. unfold linc. cbn.
+    rewrite lower_ok_eq, upper_ok_eq. reflexivity.
+  - rewrite Hid by (intros x; apply lcell_eta). apply filter_ext. intros x. unfold linc. cbn. unfold ts_in.
+    destruct (e =? 0); reflexivity.
+  - unfold linc. cbn [include_cell]. rewrite filter_true. reflexivity.
+  - unfold linc. cbn [include_cell]. rewrite filter_true. reflexivity.
+Qed.
+
+(* ------------------------------------------------------------------ *)
+(* cells-per-row limit and offset *)
+Lemma flatten_fam_cons' n c cs :
+  flatten_fam (mkFam n (c :: cs)) = flatten_col n c ++ flatten_fam (mkFam n cs).
+Proof. reflexivity. Qed.
+
+Lemma limit_cols_flatten nm cs : forall n,
+  flatten_fam (mkFam nm (snd (limit_cols n cs))) = firstn n (flatten_fam (mkFam nm cs))
+  /\ fst (limit_cols n cs) = (n - length (flatten_fam (mkFam nm cs)))%nat.
+Proof.
+  induction cs as [|c r IH]; intros n; cbn [limit_cols fst snd].
+  - cbn. rewrite firstn_nil. split; [reflexivity|lia].
+  - rewrite flatten_fam_cons', firstn_app, app_length, flatten_col_length.
+    destruct (n <? length (col_cells c))%nat eqn:E.
+    + destruct (IH 0%nat) as [IH1 IH2]. destruct (limit_cols 0 r) as [l' r']. cbn [fst snd] in *.
+      rewrite flatten_fam_cons'. split; [|lia]. f_equal.
+      * unfold flatten_col. cbn [col_q col_cells]. rewrite firstn_map. reflexivity.
+      * rewrite IH1. replace (n - length (col_cells c))%nat with 0%nat by lia. reflexivity.
+    + destruct (IH (n - length (col_cells c))%nat) as [IH1 IH2].
+      destruct (limit_cols (n - length (col_cells c)) r) as [l' r']. cbn [fst snd] in *.
+      rewrite flatten_fam_cons'. split; [|lia]. f_equal; [|exact IH1].
+      symmetry. apply firstn_all2. rewrite flatten_col_length. lia.
+Qed.
+
+Lemma fam_eta f : mkFam (fam_name f) (fam_cols f) = f.
+Proof. destruct f; reflexivity. Qed.
+
+Lemma limit_fams_flatten fs : forall n, flatten (limit_fams n fs) = firstn n (flatten fs).
+Proof.
+  induction fs as [|f r IH]; intros n; cbn [limit_fams].
+  - cbn. rewrite firstn_nil. reflexivity.
+  - destruct (limit_cols_flatten (fam_name f) (fam_cols f) n) as [H1 H2].
+    destruct (limit_cols n (fam_cols f)) as [l' cs']. cbn [fst snd] in *.
+    rewrite !flatten_cons, firstn_app, IH, H1, H2, fam_eta. reflexivity.
+Qed.
+
+Lemma offset_cols_flatten nm cs : forall n,
+  flatten_fam (mkFam nm (snd (offset_cols n cs))) = skipn n (flatten_fam (mkFam nm cs))
+  /\ match fst (offset_cols n cs) with
+     | None => (n < length (flatten_fam (mkFam nm cs)))%nat
+     | Some o => o = (n - length (flatten_fam (mkFam nm cs)))%nat
+                 /\ (length (flatten_fam (mkFam nm cs)) <= n)%nat
+     end.
+Proof.
+  induction cs as [|c r IH]; intros n; cbn [offset_cols fst snd].
+  - cbn. rewrite skipn_nil. split; [reflexivity|lia].
+  - rewrite flatten_fam_cons', skipn_app, app_length, flatten_col_length.
+    destruct (n <? length (col_cells c))%nat eqn:E; cbn [fst snd].
+    + rewrite flatten_fam_cons'. split; [|lia]. f_equal.
+      * unfold flatten_col. cbn [col_q col_cells]. rewrite skipn_map. reflexivity.
+      * replace (n - length (col_cells c))%nat with 0%nat by lia. reflexivity.
+    + destruct (IH (n - length (col_cells c))%nat) as [IH1 IH2].
+      destruct (offset_cols (n - length (col_cells c)) r) as [o' r']. cbn [fst snd] in *.
+      rewrite flatten_fam_cons'. split.
+      * rewrite IH1. f_equal. unfold flatten_col at 1. cbn [col_cells map].
+        symmetry. apply skipn_all2. rewrite flatten_col_length. lia.
+      * destruct o'; lia.
+Qed.
+
+Lemma offset_fams_flatten fs : forall n, flatten (offset_fams n fs) = skipn n (flatten fs).
+Proof.
+  induction fs as [|f r IH]; intros n; cbn [offset_fams].
+  - cbn. rewrite skipn_nil. reflexivity.
+  - destruct (offset_cols_flatten (fam_name f) (fam_cols f) n) as [H1 H2]. rewrite fam_eta in H1, H2.
+    destruct (offset_cols n (fam_cols f)) as [[o'|] cs']; cbn [fst snd] in *;
+      rewrite !flatten_cons, skipn_app, H1.
+    + rewrite IH. destruct H2 as [-> _]. reflexivity.
+    + replace (n - length (flatten_fam f))%nat with 0%nat by lia. reflexivity.
+Qed.
+
+(* ------------------------------------------------------------------ *)
+(* cells-per-column limit *)
+Lemma key_eqb_eq a b : key_eqb a b = true <-> a = b.
+Proof.
+  destruct a as [a1 a2], b as [b1 b2]. unfold key_eqb. cbn [fst snd].
+  rewrite andb_true_iff, !beqb_eq. split; [intros [-> ->]; reflexivity|intros H; inversion H; auto].
+Qed.
+Lemma key_eqb_refl a : key_eqb a a = true.
+Proof. apply key_eqb_eq. reflexivity. Qed.
+Lemma key_eqb_neq a b : key_eqb a b = false <-> a <> b.
+Proof. rewrite <- key_eqb_eq. destruct (key_eqb a b); split; congruence. Qed.
+
+Lemma key_of_tagc k c : key_of (tagc k c) = k.
+Proof. destruct k; reflexivity. Qed.
+
+Definition cntk (k : col_key) (seen : list lcell) : nat :=
+  length (filter (fun y => key_eqb k (key_of y)) seen).
+
+Lemma col_limit_block n k cells : forall seen rest,
+  col_limit n seen (map (tagc k) cells ++ rest)
+  = firstn (n - cntk k seen) (map (tagc k) cells) ++ col_limit n (rev (map (tagc k) cells) ++ seen) rest.
+Proof.
+  destruct k as [fam q]. induction cells as [|c cells IH]; intros seen rest.
+  - cbn [map app rev]. rewrite firstn_nil. reflexivity.
+  - cbn [map app col_limit rev]. rewrite IH. rewrite <- (app_assoc (rev _) [_] seen). cbn [app].
+    change (filter (same_col (tagc (fam, q) c)) seen) with (filter (fun y => key_eqb (fam, q) (key_of y)) seen).
+    fold (cntk (fam, q) seen).
+    assert (E : cntk (fam, q) (tagc (fam, q) c :: seen) = S (cntk (fam, q) seen)).
+    { unfold cntk. cbn [filter]. rewrite key_of_tagc, key_eqb_refl. reflexivity. }
+    rewrite E. destruct (cntk (fam, q) seen <? n)%nat eqn:L.
+    + replace (n - cntk (fam, q) seen)%nat with (S (n - S (cntk (fam, q) seen))) by lia. reflexivity.
+    + replace (n - cntk (fam, q) seen)%nat with 0%nat by lia.
+      replace (n - S (cntk (fam, q) seen))%nat with 0%nat by lia. reflexivity.
+Qed.
+
+Lemma cntk_zero k seen : (forall y, In y seen -> key_of y <> k) -> cntk k seen = 0%nat.
+Proof.
+  intros H. unfold cntk. rewrite filter_none; [reflexivity|]. intros y Hy. apply key_eqb_neq.
+  intros E. apply (H y Hy). symmetry. exact E.
+Qed.
+
+Lemma col_limit_blocks n bs : forall seen,
+  NoDup (map fst bs) -> (forall y, In y seen -> ~ In (key_of y) (map fst bs)) ->
+  col_limit n seen (unblocks bs) = unblocks (map (fun b => (fst b, firstn n (snd b))) bs).
+Proof.
+  induction bs as [|[k cells] bs IH]; intros seen Hnd Hseen; [reflexivity|].
+  cbn [map fst snd] in *. rewrite !unblocks_cons. unfold unblock at 1 2. cbn [fst snd].
+  inversion Hnd as [|? ? Hk Hnd']; subst.
+  rewrite col_limit_block, cntk_zero, Nat.sub_0_r, firstn_map.
+  - f_equal. apply IH; [exact Hnd'|]. intros y Hy. apply in_app_iff in Hy. destruct Hy as [Hy|Hy].
+    + apply in_rev in Hy. apply in_map_iff in Hy. destruct Hy as (c & <- & _). rewrite key_of_tagc. exact Hk.
+    + intros Hin. apply (Hseen y Hy). right. exact Hin.
+  - intros y Hy E. apply (Hseen y Hy). left. symmetry. exact E.
+Qed.
+
+Lemma percol_flatten n fs : skel_ok fs ->
+  flatten (map_cols (fun _ c => mkCol (col_q c) (firstn n (col_cells c))) fs) = col_limit n [] (flatten fs).
+Proof.
+  intros Hok. rewrite !flatten_blocks.
+  rewrite (blocks_map_cols (fun _ _ cs => firstn n cs)).
+  symmetry. apply col_limit_blocks; [apply keys_nodup, Hok|intros y []].
+Qed.
+
+(* ------------------------------------------------------------------ *)
+(* the skeleton of a row (family names and qualifiers, in order) *)
+Definition skel (fs : list family) : list (bytes * list bytes) :=
+  map (fun f => (fam_name f, map col_q (fam_cols f))) fs.
+
+Lemma skel_names fs : map fam_name fs = map fst (skel fs).
+Proof. unfold skel. rewrite map_map. reflexivity. Qed.
+
+Lemma skel_ok_skel fs : skel_ok fs <-> NoDup (map fst (skel fs)) /\ Forall (fun p => NoDup (snd p)) (skel fs).
+Proof.
+  unfold skel_ok. rewrite skel_names. unfold skel. rewrite Forall_map. cbn [snd]. tauto.
+Qed.
+
+Lemma skel_ok_eq fs fs' : skel fs' = skel fs -> skel_ok fs -> skel_ok fs'.
+Proof. rewrite !skel_ok_skel. intros ->. tauto. Qed.
+
+Lemma keys_skel fs : keys fs = flat_map (fun p => map (pair (fst p)) (snd p)) (skel fs).
+Proof.
+  unfold keys, blocks, skel. induction fs as [|f r IH]; cbn [flat_map map]; [reflexivity|].
+  rewrite map_app. f_equal; [|exact IH]. unfold fam_blocks. cbn [fst snd]. rewrite !map_map. reflexivity.
+Qed.
+
+Lemma keys_eq fs fs' : skel fs' = skel fs -> keys fs' = keys fs.
+Proof. rewrite !keys_skel. intros ->. reflexivity. Qed.
+
+Lemma skel_map_cols g fs : (forall n c, col_q (g n c) = col_q c) -> skel (map_cols g fs) = skel fs.
+Proof.
+  intros Hg. unfold skel, map_cols. rewrite map_map. apply map_ext. intros f. cbn [fam_name fam_cols].
+  f_equal. rewrite map_map. apply map_ext. intros c. apply Hg.
+Qed.
+
+Lemma limit_cols_quals cs : forall n, map col_q (snd (limit_cols n cs)) = map col_q cs.
+Proof.
+  induction cs as [|c r IH]; intros n; cbn [limit_cols]; [reflexivity|].
+  destruct (n <? length (col_cells c))%nat.
+  - specialize (IH 0%nat). destruct (limit_cols 0 r) as [l' r']. cbn [snd map col_q] in *. rewrite IH. reflexivity.
+  - specialize (IH (n - length (col_cells c))%nat). destruct (limit_cols _ r) as [l' r'].
+    cbn [snd map] in *. rewrite IH. reflexivity.
+Qed.
+
+Lemma skel_limit_fams fs : forall n, skel (limit_fams n fs) = skel fs.
+Proof.
+  induction fs as [|f r IH]; intros n; cbn [limit_fams]; [reflexivity|].
+  assert (Q := limit_cols_quals (fam_cols f) n). destruct (limit_cols n (fam_cols f)) as [l' cs'].
+  cbn [snd] in Q. unfold skel in *. cbn [map fam_name fam_cols]. rewrite Q, IH. reflexivity.
+Qed.
+
+Lemma offset_cols_quals cs : forall n, map col_q (snd (offset_cols n cs)) = map col_q cs.
+Proof.
+  induction cs as [|c r IH]; intros n; cbn [offset_cols]; [reflexivity|].
+  destruct (n <? length (col_cells c))%nat; [reflexivity|].
+  specialize (IH (n - length (col_cells c))%nat). destruct (offset_cols _ r) as [o' r'].
+  cbn [snd map col_q] in *. rewrite IH. reflexivity.
+Qed.
+
+Lemma skel_offset_fams fs : forall n, skel (offset_fams n fs) = skel fs.
+Proof.
+  induction fs as [|f r IH]; intros n; cbn [offset_fams]; [reflexivity|].
+  assert (Q := offset_cols_quals (fam_cols f) n). destruct (offset_cols n (fam_cols f)) as [[o'|] cs'];
+    cbn [snd] in Q; unfold skel in *; cbn [map fam_name fam_cols]; rewrite Q, ?IH; reflexivity.
+Qed.
+
+(* ---- lookups under the invariant ---- *)
+Lemma get_family_in_nodup fs f : NoDup (map fam_name fs) -> In f fs -> get_family fs (fam_name f) = Some f.
+Proof.
+  induction fs as [|g r IH]; intros Hn Hin; [destruct Hin|]. cbn [get_family].
+  inversion Hn as [|? ? Hg Hr]; subst. destruct Hin as [->|Hin].
+  - rewrite beqb_refl. reflexivity.
+  - destruct (beqb (fam_name g) (fam_name f)) eqn:E; [|apply IH; assumption].
+    apply beqb_eq in E. exfalso. apply Hg. rewrite E. apply in_map. exact Hin.
+Qed.
+
+Lemma get_column_in_nodup cs c : NoDup (map col_q cs) -> In c cs -> get_column cs (col_q c) = Some c.
+Proof.
+  induction cs as [|d r IH]; intros Hn Hin; [destruct Hin|]. cbn [get_column].
+  inversion Hn as [|? ? Hd Hr]; subst. destruct Hin as [->|Hin].
+  - rewrite beqb_refl. reflexivity.
+  - destruct (beqb (col_q d) (col_q c)) eqn:E; [|apply IH; assumption].
+    apply beqb_eq in E. exfalso. apply Hd. rewrite E. apply in_map. exact Hin.
+Qed.
+
+Lemma keys_present fs n q : skel_ok fs -> In (n, q) (keys fs) ->
+  exists fm c, get_family fs n = Some fm /\ get_column (fam_cols fm) q = Some c.
+Proof.
+  intros [Hn Hq] Hin. unfold keys, blocks in Hin. apply in_map_iff in Hin.
+  destruct Hin as ([k cs] & E & Hin). cbn in E. subst k. apply in_flat_map in Hin.
+  destruct Hin as (f & Hf & Hb). unfold fam_blocks in Hb. apply in_map_iff in Hb.
+  destruct Hb as (c & E & Hc). inversion E; subst. exists f.
+  rewrite (get_family_in_nodup fs f Hn Hf). rewrite Forall_forall in Hq.
+  exists c. split; [reflexivity|]. apply get_column_in_nodup; [apply Hq, Hf|exact Hc].
+Qed.
+
+(* all the cells filed under a key, in block order *)
+Definition contrib (bs : list block) (k : col_key) : list cell :=
+  flat_map (fun b => if key_eqb (fst b) k then snd b else []) bs.
+
+Lemma contrib_none bs k : ~ In k (map fst bs) -> contrib bs k = [].
+Proof.
+  unfold contrib. induction bs as [|b bs IH]; intros H; cbn [flat_map]; [reflexivity|].
+  cbn [map In] in H. rewrite IH by tauto. destruct (key_eqb (fst b) k) eqn:E; [|reflexivity].
+  apply key_eqb_eq in E. tauto.
+Qed.
+
+Lemma contrib_app a b k : contrib (a ++ b) k = contrib a k ++ contrib b k.
+Proof. apply flat_map_app. Qed.
+Lemma contrib_cons b bs k : contrib (b :: bs) k = (if key_eqb (fst b) k then snd b else []) ++ contrib bs k.
+Proof. reflexivity. Qed.
+Lemma blocks_cons f r : blocks (f :: r) = fam_blocks f ++ blocks r.
+Proof. reflexivity. Qed.
+
+Lemma col_contrib n cs q : NoDup (map col_q cs) ->
+  contrib (map (fun c => ((n, col_q c), col_cells c)) cs) (n, q)
+  = match get_column cs q with Some c => col_cells c | None => [] end.
+Proof.
+  induction cs as [|c cs IHc]; intros Hnd; [reflexivity|]. cbn [map get_column]. rewrite contrib_cons.
+  inversion Hnd as [|? ? Hc Hcs]; subst. cbn [fst snd]. unfold key_eqb at 1. cbn [fst snd].
+  rewrite beqb_refl. cbn [andb]. destruct (beqb (col_q c) q) eqn:E.
+  - apply beqb_eq in E. subst q. rewrite contrib_none; [apply app_nil_r|].
+    rewrite map_map. cbn [fst]. intros Hin. apply in_map_iff in Hin. destruct Hin as (c' & E & Hc').
+    inversion E as [E']. apply Hc. rewrite <- E'. apply in_map. exact Hc'.
+  - cbn [app]. apply IHc. exact Hcs.
+Qed.
+
+Lemma cells_of_contrib fs n q : skel_ok fs -> cells_of fs n q = contrib (blocks fs) (n, q).
+Proof.
+  intros [Hn Hq]. unfold cells_of. induction fs as [|f r IH]; [reflexivity|].
+  inversion Hn as [|? ? Hf Hr]; subst. inversion Hq as [|? ? Hqf Hqr]; subst.
+  cbn [get_family]. rewrite blocks_cons, contrib_app.
+  destruct (beqb (fam_name f) n) eqn:E.
+  - apply beqb_eq in E. subst n. rewrite (contrib_none (blocks r)).
+    2:{ intros Hin. apply Hf. change (map fst (blocks r)) with (keys r) in Hin. apply keys_in in Hin. exact Hin. }
+    rewrite app_nil_r. unfold fam_blocks. symmetry. apply col_contrib. exact Hqf.
+  - rewrite (contrib_none (fam_blocks f)).
+    2:{ unfold fam_blocks. rewrite map_map. cbn [fst]. intros Hin. apply in_map_iff in Hin.
+        destruct Hin as (c & E' & _). inversion E'. subst. rewrite beqb_refl in E. discriminate. }
+    cbn [app]. apply IH; assumption.
+Qed.
+
+Lemma blocks_cells_of fs : skel_ok fs ->
+  blocks fs = map (fun k => (k, cells_of fs (fst k) (snd k))) (keys fs).
+Proof.
+  intros Hok. unfold keys. rewrite map_map.
+  rewrite <- (map_id (blocks fs)) at 1. apply map_ext_in. intros [[n q] cs] Hin. cbn [fst snd].
+  rewrite (cells_of_contrib fs n q Hok). f_equal.
+  assert (Hnd := keys_nodup fs Hok). unfold keys in Hnd. revert Hin Hnd. generalize (blocks fs).
+  intros bs. induction bs as [|b bs IH]; intros Hin Hnd; [destruct Hin|]. cbn [map] in Hnd.
+  inversion Hnd as [|? ? Hb Hbs]; subst. rewrite contrib_cons.
+  destruct Hin as [->|Hin].
+  - cbn [fst snd]. rewrite key_eqb_refl. rewrite contrib_none; [rewrite app_nil_r; reflexivity|exact Hb].
+  - destruct (key_eqb (fst b) (n, q)) eqn:E.
+    + apply key_eqb_eq in E. exfalso. apply Hb. rewrite E.
+      change (n, q) with (fst ((n, q), cs)). apply in_map. exact Hin.
+    + cbn [app]. apply IH; assumption.
+Qed.
+
+(* ---- interleave's merge ---- *)
+Lemma set_family_skel fs f' fm :
+  get_family fs (fam_name f') = Some fm -> map col_q (fam_cols f') = map col_q (fam_cols fm) ->
+  skel (set_family fs f') = skel fs.
+Proof.
+  induction fs as [|g r IH]; intros Hg Hq; [discriminate|]. cbn [get_family set_family] in *.
+  destruct (beqb (fam_name g) (fam_name f')) eqn:E.
+  - injection Hg as <-. apply beqb_eq in E. unfold skel. cbn [map]. rewrite Hq, E. reflexivity.
+  - unfold skel in *. cbn [map]. rewrite (IH Hg Hq). reflexivity.
+Qed.
+
+Lemma upd_col_skel fs fam q g fm c :
+  get_family fs fam = Some fm -> get_column (fam_cols fm) q = Some c -> skel (upd_col fs fam q g) = skel fs.
+Proof.
+  intros Hf Hc. unfold upd_col. rewrite Hf, Hc. apply (set_family_skel fs _ fm); cbn [fam_name fam_cols]; [exact Hf|].
+  rewrite set_column_names. cbn [col_q]. rewrite Hc. reflexivity.
+Qed.
+
+Definition merge_step (a : list family) (b : block) : list family :=
+  upd_col a (fst (fst b)) (snd (fst b)) (fun cs => cs ++ snd b).
+
+Lemma merge_fold bs : forall a, skel_ok a -> (forall b, In b bs -> In (fst b) (keys a)) ->
+  skel (fold_left merge_step bs a) = skel a
+  /\ forall n q, cells_of (fold_left merge_step bs a) n q = cells_of a n q ++ contrib bs (n, q).
+Proof.
+  induction bs as [|[[n0 q0] cs0] bs IH]; intros a Hok Hin; cbn [fold_left].
+  - split; [reflexivity|]. intros n q. cbn. rewrite app_nil_r. reflexivity.
+  - assert (Hk : In (n0, q0) (keys a)) by (apply (Hin ((n0, q0), cs0)); left; reflexivity).
+    destruct (keys_present a n0 q0 Hok Hk) as (fm & c & Hf & Hc).
+    assert (Hs : skel (merge_step a ((n0, q0), cs0)) = skel a).
+    { unfold merge_step. cbn [fst snd]. eapply upd_col_skel; eassumption. }
+    destruct (IH (merge_step a ((n0, q0), cs0))) as [IH1 IH2].
+    + eapply skel_ok_eq; eassumption.
+    + intros b Hb. rewrite (keys_eq _ _ Hs). apply Hin. right. exact Hb.
+    + split; [exact (eq_trans IH1 Hs)|]. intros n q.
+      refine (eq_trans (IH2 n q) _). rewrite contrib_cons. cbn [fst snd].
+      unfold merge_step at 1. cbn [fst snd]. rewrite cells_of_upd_col. unfold key_eqb. cbn [fst snd].
+      rewrite (beqb_sym n n0), (beqb_sym q q0). destruct (beqb n0 n && beqb q0 q) eqn:E.
+      * apply andb_true_iff in E. destruct E as [E1 E2]. apply beqb_eq in E1, E2. subst.
+        rewrite <- !app_assoc. reflexivity.
+      * reflexivity.
+Qed.
+
+Lemma fold_left_map {A B C} (f : A -> B -> A) (g : C -> B) l : forall a,
+  fold_left f (map g l) a = fold_left (fun a c => f a (g c)) l a.
+Proof. induction l as [|x l IH]; intros a; cbn; [reflexivity|]. apply IH. Qed.
+
+Lemma merge_step_keeps a b n : get_family a n <> None -> get_family (merge_step a b) n <> None.
+Proof.
+  unfold merge_step, upd_col. rewrite get_set_family. cbn [fam_name].
+  destruct (beqb (fst (fst b)) n); [discriminate|auto].
+Qed.
+
+Lemma merge_fold_keeps bs : forall a n, get_family a n <> None -> get_family (fold_left merge_step bs a) n <> None.
+Proof.
+  induction bs as [|b bs IH]; intros a n H; cbn [fold_left]; [exact H|]. apply IH, merge_step_keeps, H.
+Qed.
+
+Lemma merge_branch_blocks br : forall acc,
+  (forall f, In f br -> get_family acc (fam_name f) <> None) ->
+  merge_branch acc br = fold_left merge_step (blocks br) acc.
+Proof.
+  unfold merge_branch. induction br as [|f r IH]; intros acc Hp; [reflexivity|].
+  cbn [fold_left]. rewrite blocks_cons, fold_left_app.
+  assert (Ef : ensure_family acc (fam_name f) = acc).
+  { unfold ensure_family. destruct (get_family acc (fam_name f)) eqn:E; [reflexivity|].
+    exfalso. apply (Hp f); [left; reflexivity|exact E]. }
+  rewrite Ef. unfold fam_blocks. rewrite fold_left_map. unfold merge_step at 2. cbn [fst snd].
+  change (fun (a : list family) (c : column) =>
+            upd_col a (fam_name f) (col_q c) (fun cs => cs ++ col_cells c))
+    with (fun (a : list family) (c : column) => merge_step a ((fam_name f, col_q c), col_cells c)).
+  rewrite <- (fold_left_map merge_step (fun c => ((fam_name f, col_q c), col_cells c))).
+  apply IH. intros g Hg. apply merge_fold_keeps. apply Hp. right. exact Hg.
+Qed.
+
+(* the first branch lands in an empty accumulator and is copied *)
+Lemma get_family_app_notin acc l n : ~ In n (map fam_name acc) -> get_family (acc ++ l) n = get_family l n.
+Proof.
+  induction acc as [|g r IH]; intros H; [reflexivity|]. cbn [app get_family map In] in *.
+  destruct (beqb (fam_name g) n) eqn:E; [apply beqb_eq in E; tauto|]. apply IH. tauto.
+Qed.
+
+Lemma set_family_app_notin acc l f : ~ In (fam_name f) (map fam_name acc) ->
+  set_family (acc ++ l) f = acc ++ set_family l f.
+Proof.
+  induction acc as [|g r IH]; intros H; [reflexivity|]. cbn [app set_family map In] in *.
+  destruct (beqb (fam_name g) (fam_name f)) eqn:E; [apply beqb_eq in E; tauto|]. rewrite IH by tauto. reflexivity.
+Qed.
+
+Lemma set_column_notin cs c : get_column cs (col_q c) = None -> set_column cs c = cs ++ [c].
+Proof.
+  induction cs as [|d r IH]; intros H; [reflexivity|]. cbn [get_column set_column app] in *.
+  destruct (beqb (col_q d) (col_q c)); [discriminate|]. rewrite IH by exact H. reflexivity.
+Qed.
+
+Lemma col_eta c : mkCol (col_q c) (col_cells c) = c.
+Proof. destruct c; reflexivity. Qed.
+
+Lemma merge_fresh_cols n cols : forall done acc,
+  ~ In n (map fam_name acc) -> NoDup (map col_q done ++ map col_q cols) ->
+  fold_left (fun a' c => upd_col a' n (col_q c) (fun cs => cs ++ col_cells c)) cols (acc ++ [mkFam n done])
+  = acc ++ [mkFam n (done ++ cols)].
+Proof.
+  induction cols as [|c cols IH]; intros done acc Hn Hnd; cbn [fold_left].
+  - rewrite app_nil_r. reflexivity.
+  - assert (Hq : get_column done (col_q c) = None).
+    { apply get_column_none. intros Hin. apply NoDup_app_inv in Hnd. destruct Hnd as (_ & _ & Hd).
+      apply (Hd (col_q c) Hin). left. reflexivity. }
+    assert (E : upd_col (acc ++ [mkFam n done]) n (col_q c) (fun cs => cs ++ col_cells c)
+                = acc ++ [mkFam n (done ++ [c])]).
+    { unfold upd_col. rewrite (get_family_app_notin acc _ n Hn). cbn [get_family fam_name].
+      rewrite beqb_refl. cbn [fam_cols]. rewrite Hq. cbn [col_cells app].
+      rewrite set_column_notin by (cbn [col_q]; exact Hq). rewrite col_eta.
+      rewrite set_family_app_notin by (cbn [fam_name]; exact Hn). cbn [set_family fam_name].
+      rewrite beqb_refl. reflexivity. }
+    rewrite E, IH; [rewrite <- app_assoc; reflexivity|exact Hn|].
+    rewrite map_app, <- app_assoc. exact Hnd.
+Qed.
+
+Lemma merge_branch_fresh br : forall acc,
+  NoDup (map fam_name acc ++ map fam_name br) -> Forall (fun f => NoDup (map col_q (fam_cols f))) br ->
+  merge_branch acc br = acc ++ br.
+Proof.
+  unfold merge_branch. induction br as [|f r IH]; intros acc Hnd Hq; cbn [fold_left].
+  - rewrite app_nil_r. reflexivity.
+  - inversion Hq as [|? ? Hqf Hqr]; subst.
+    assert (Hn : ~ In (fam_name f) (map fam_name acc)).
+    { intros Hin. apply NoDup_app_inv in Hnd. destruct Hnd as (_ & _ & Hd). apply (Hd _ Hin). left. reflexivity. }
+    assert (Ef : ensure_family acc (fam_name f) = acc ++ [mkFam (fam_name f) []]).
+    { unfold ensure_family. destruct (get_family acc (fam_name f)) eqn:E; [|reflexivity].
+      exfalso. apply get_family_some in E. destruct E as [E Hin]. apply Hn. rewrite <- E. apply in_map. exact Hin. }
+    rewrite Ef, (merge_fresh_cols (fam_name f) (fam_cols f) [] acc Hn Hqf). cbn [app]. rewrite fam_eta.
+    rewrite IH; [rewrite <- app_assoc; reflexivity| |exact Hqr].
+    rewrite map_app, <- app_assoc. exact Hnd.
+Qed.
+
+Lemma merge_branch_nil br : skel_ok br -> merge_branch [] br = br.
+Proof. intros [Hn Hq]. apply (merge_branch_fresh br []); assumption. Qed.
+
+Lemma merge_same acc br : skel_ok acc -> skel br = skel acc ->
+  skel (merge_branch acc br) = skel acc
+  /\ forall n q, cells_of (merge_branch acc br) n q = cells_of acc n q ++ cells_of br n q.
+Proof.
+  intros Hok Hs. assert (Hokb : skel_ok br) by (eapply skel_ok_eq; eassumption).
+  rewrite merge_branch_blocks.
+  - destruct (merge_fold (blocks br) acc Hok) as [H1 H2].
+    + intros b Hb. rewrite <- (keys_eq _ _ Hs). unfold keys. apply in_map. exact Hb.
+    + split; [exact H1|]. intros n q. rewrite H2, (cells_of_contrib br n q Hokb). reflexivity.
+  - intros f Hf Hn. apply get_family_none in Hn. apply Hn.
+    rewrite skel_names, <- Hs, <- skel_names. apply in_map. exact Hf.
+Qed.
+
+Lemma merge_all brs : forall acc, skel_ok acc -> Forall (fun br => skel br = skel acc) brs ->
+  skel (fold_left merge_branch brs acc) = skel acc
+  /\ forall n q, cells_of (fold_left merge_branch brs acc) n q
+                 = cells_of acc n q ++ flat_map (fun br => cells_of br n q) brs.
+Proof.
+  induction brs as [|br brs IH]; intros acc Hok Hall; cbn [fold_left flat_map].
+  - split; [reflexivity|]. intros. rewrite app_nil_r. reflexivity.
+  - inversion Hall as [|? ? Hbr Hbrs]; subst. destruct (merge_same acc br Hok Hbr) as [M1 M2].
+    destruct (IH (merge_branch acc br)) as [I1 I2].
+    + eapply skel_ok_eq; eassumption.
+    + eapply Forall_impl; [|exact Hbrs]. intros b Hb. cbn in Hb. congruence.
+    + split; [congruence|]. intros n q. rewrite I2, M2, <- app_assoc. reflexivity.
+Qed.
+
+(* ---- the two sorts agree ---- *)
+Fixpoint ins_c (x : cell) (l : list cell) : list cell :=
+  match l with
+  | [] => [x]
+  | y :: r => if c_ts x <? c_ts y then y :: ins_c x r else x :: l
+  end.
+
+Lemma insert_ins_comm c x l : insert_desc c (ins_c x l) = ins_c x (insert_desc c l).
+Proof.
+  induction l as [|y r IH]; cbn [ins_c insert_desc]; [reflexivity|].
+  destruct (c_ts x <? c_ts y) eqn:E1; destruct (c_ts y <? c_ts c) eqn:E2;
+    destruct (c_ts x <? c_ts c) eqn:E3; cbn [ins_c insert_desc]; rewrite ?E1, ?E2, ?E3;
+    try rewrite IH; try reflexivity; exfalso; lia.
+Qed.
+
+Lemma sort_desc_fold l : forall acc x,
+  fold_left (fun a c => insert_desc c a) l (ins_c x acc) = ins_c x (fold_left (fun a c => insert_desc c a) l acc).
+Proof.
+  induction l as [|c l IH]; intros acc x; cbn [fold_left]; [reflexivity|].
+  rewrite insert_ins_comm. apply IH.
+Qed.
+
+Lemma sort_desc_cons x l : sort_desc (x :: l) = ins_c x (sort_desc l).
+Proof. unfold sort_desc. cbn [fold_left insert_desc]. apply (sort_desc_fold l [] x). Qed.
+
+Lemma ins_ts_tagc k c l : ins_ts (tagc k c) (map (tagc k) l) = map (tagc k) (ins_c c l).
+Proof.
+  induction l as [|y r IH]; cbn [map ins_ts ins_c]; [reflexivity|].
+  change (c_ts (lc_cell (tagc k c))) with (c_ts c). change (c_ts (lc_cell (tagc k y))) with (c_ts y).
+  destruct (c_ts c <? c_ts y); cbn [map]; [rewrite IH|]; reflexivity.
+Qed.
+
+Lemma sort_ts_tagc k cs : sort_ts (map (tagc k) cs) = map (tagc k) (sort_desc cs).
+Proof.
+  induction cs as [|c cs IH]; [reflexivity|]. rewrite sort_desc_cons. cbn [map]. unfold sort_ts in *.
+  cbn [fold_right]. rewrite IH. apply ins_ts_tagc.
+Qed.
+
+Lemma ins_ts_in x y l : In y (ins_ts x l) <-> y = x \/ In y l.
+Proof.
+  induction l as [|z r IH]; cbn [ins_ts In]; [intuition congruence|].
+  destruct (c_ts (lc_cell x) <? c_ts (lc_cell z)); cbn [In]; [rewrite IH|]; intuition congruence.
+Qed.
+
+Lemma sort_ts_in y l : In y (sort_ts l) <-> In y l.
+Proof.
+  unfold sort_ts. induction l as [|x l IH]; cbn [fold_right In]; [tauto|]. rewrite ins_ts_in, IH. intuition congruence.
+Qed.
+
+(* ---- columns_of on a block list ---- *)
+Definition nonempty_block (b : block) : bool := match snd b with [] => false | _ => true end.
+
+Lemma columns_of_in l k : In k (columns_of l) -> In k (map key_of l).
+Proof.
+  revert k. induction l as [|x l IH]; intros k; cbn [columns_of map In]; [tauto|].
+  intros [H|H]; [auto|]. apply filter_In in H. right. apply IH. tauto.
+Qed.
+
+Lemma filter_idem {A} (p : A -> bool) l : filter p (filter p l) = filter p l.
+Proof.
+  induction l as [|x l IH]; cbn; [reflexivity|]. destruct (p x) eqn:E; cbn; rewrite ?E, IH; reflexivity.
+Qed.
+
+Lemma columns_of_block k cells rest : ~ In k (map key_of rest) -> cells <> [] ->
+  columns_of (map (tagc k) cells ++ rest) = k :: columns_of rest.
+Proof.
+  intros Hk Hne.
+  assert (Hf : filter (fun k' => negb (key_eqb k k')) (columns_of rest) = columns_of rest).
+  { apply filter_all. intros k' Hk'. apply negb_true_iff, key_eqb_neq. intros <-.
+    apply Hk, columns_of_in, Hk'. }
+  assert (Hgen : forall cs, filter (fun k' => negb (key_eqb k k')) (columns_of (map (tagc k) cs ++ rest))
+                            = columns_of rest).
+  { induction cs as [|c cs IHc]; cbn [map app columns_of]; [exact Hf|].
+    rewrite key_of_tagc. cbn [filter]. rewrite key_eqb_refl. cbn [negb]. rewrite filter_idem. exact IHc. }
+  destruct cells as [|c cs]; [congruence|]. cbn [map app columns_of]. rewrite key_of_tagc, Hgen. reflexivity.
+Qed.
+
+Lemma unblocks_keys bs k : In k (map key_of (unblocks bs)) <-> exists b, In b bs /\ fst b = k /\ snd b <> [].
+Proof.
+  unfold unblocks. rewrite in_map_iff. split.
+  - intros (x & <- & Hx). apply in_flat_map in Hx. destruct Hx as (b & Hb & Hx). unfold unblock in Hx.
+    apply in_map_iff in Hx. destruct Hx as (c & <- & Hc). exists b. rewrite key_of_tagc.
+    split; [exact Hb|]. split; [reflexivity|]. intros E. rewrite E in Hc. destruct Hc.
+  - intros (b & Hb & <- & Hne). destruct (snd b) as [|c cs] eqn:E; [congruence|].
+    exists (tagc (fst b) c). split; [apply key_of_tagc|]. apply in_flat_map. exists b. split; [exact Hb|].
+    unfold unblock. rewrite E. left. reflexivity.
+Qed.
+
+Lemma columns_of_unblocks bs : NoDup (map fst bs) ->
+  columns_of (unblocks bs) = map fst (filter nonempty_block bs).
+Proof.
+  induction bs as [|[k cells] bs IH]; intros Hnd; [reflexivity|]. cbn [map fst] in Hnd.
+  inversion Hnd as [|? ? Hk Hnd']; subst. rewrite unblocks_cons. unfold unblock. cbn [fst snd filter].
+  unfold nonempty_block at 1. cbn [snd]. destruct cells as [|c cs].
+  - cbn [map app]. apply IH. exact Hnd'.
+  - cbn [fst]. change (map fst (((k, c :: cs) : block) :: filter nonempty_block bs))
+      with (k :: map fst (filter nonempty_block bs)).
+    rewrite <- (IH Hnd'). apply (columns_of_block k (c :: cs)); [|discriminate].
+    intros Hin. apply unblocks_keys in Hin. destruct Hin as (b & Hb & E & _). apply Hk. rewrite <- E.
+    apply in_map. exact Hb.
+Qed.
+
+Lemma filter_key_unblocks bs k :
+  filter (fun x => key_eqb k (key_of x)) (unblocks bs) = map (tagc k) (contrib bs k).
+Proof.
+  induction bs as [|[k' cells] bs IH]; [reflexivity|]. rewrite unblocks_cons, filter_app, contrib_cons, map_app, IH.
+  f_equal. unfold unblock. cbn [fst snd]. destruct (key_eqb k' k) eqn:E.
+  - apply key_eqb_eq in E. subst k'. apply filter_all. intros x Hx. apply in_map_iff in Hx.
+    destruct Hx as (c & <- & _). rewrite key_of_tagc. apply key_eqb_refl.
+  - cbn [map]. apply filter_none. intros x Hx. apply in_map_iff in Hx. destruct Hx as (c & <- & _).
+    rewrite key_of_tagc. apply key_eqb_neq. apply key_eqb_neq in E. congruence.
+Qed.
+
+Lemma filter_flat_map {A B} (p : B -> bool) (g : A -> list B) l :
+  filter p (flat_map g l) = flat_map (fun x => filter p (g x)) l.
+Proof. induction l as [|x l IH]; cbn; [reflexivity|]. rewrite filter_app, IH. reflexivity. Qed.
+
+Lemma map_flat_map {A B C} (h : B -> C) (g : A -> list B) l :
+  map h (flat_map g l) = flat_map (fun x => map h (g x)) l.
+Proof. induction l as [|x l IH]; cbn; [reflexivity|]. rewrite map_app, IH. reflexivity. Qed.
+
+Lemma flat_map_ext_in {A B} (g h : A -> list B) l : (forall x, In x l -> g x = h x) -> flat_map g l = flat_map h l.
+Proof.
+  induction l as [|x l IH]; intros H; cbn; [reflexivity|]. rewrite H by (left; reflexivity).
+  rewrite IH; [reflexivity|]. intros y Hy. apply H. right. exact Hy.
+Qed.
+
+Lemma flat_map_nil {A B} (l : list A) : flat_map (fun _ => @nil B) l = [].
+Proof. induction l; cbn; auto. Qed.
+
+Lemma nodup_fst_inj {A B} (bs : list (A * B)) b b' :
+  NoDup (map fst bs) -> In b bs -> In b' bs -> fst b = fst b' -> b = b'.
+Proof.
+  induction bs as [|x bs IH]; intros Hnd Hb Hb' E; [destruct Hb|]. cbn [map] in Hnd.
+  inversion Hnd as [|? ? Hx Hr]; subst. destruct Hb as [->|Hb], Hb' as [->|Hb'].
+  - reflexivity.
+  - exfalso. apply Hx. rewrite E. apply in_map. exact Hb'.
+  - exfalso. apply Hx. rewrite <- E. apply in_map. exact Hb.
+  - apply IH; assumption.
+Qed.
+
+(* the emulator's merge is the regrouping of the specification *)
+Lemma merge_branches_flatten fs brs : skel_ok fs -> Forall (fun br => skel br = skel fs) brs ->
+  (forall br, In br brs -> forall x, In x (flatten br) -> In (key_of x) (map key_of (flatten fs))) ->
+  flatten (merge_branches brs) = regroup (flatten fs) (flat_map flatten brs)
+  /\ (brs <> [] -> skel (merge_branches brs) = skel fs).
+Proof.
+  intros Hok Hsk Hkeys. unfold merge_branches. destruct brs as [|br1 rest].
+  - split; [|congruence]. cbn. unfold regroup. cbn [filter]. symmetry. apply flat_map_nil.
+  - inversion Hsk as [|? ? Hs1 Hsr]; subst. cbn [fold_left].
+    assert (Hok1 : skel_ok br1) by (eapply skel_ok_eq; eassumption).
+    rewrite (merge_branch_nil br1 Hok1).
+    destruct (merge_all rest br1 Hok1) as [M1 M2].
+    { eapply Forall_impl; [|exact Hsr]. intros b Hb. cbn in Hb. congruence. }
+    set (r := fold_left merge_branch rest br1) in *.
+    assert (Hsr' : skel r = skel fs) by congruence.
+    assert (Hokr : skel_ok r) by (eapply skel_ok_eq; eassumption).
+    split; [|intros _; rewrite skel_map_cols by reflexivity; exact Hsr'].
+    set (G := fun k : col_key =>
+                map (tagc k) (sort_desc (flat_map (fun br => cells_of br (fst k) (snd k)) (br1 :: rest)))).
+    (* the emulator's side *)
+    assert (L : flatten (map_cols (fun _ c => mkCol (col_q c) (sort_desc (col_cells c))) r)
+                = flat_map G (keys fs)).
+    { rewrite flatten_blocks, (blocks_map_cols (fun _ _ cs => sort_desc cs)), (blocks_cells_of r Hokr).
+      rewrite (keys_eq _ _ Hsr'), map_map. cbn [fst snd]. unfold unblocks. rewrite flat_map_concat_map, map_map.
+      rewrite <- flat_map_concat_map. apply flat_map_ext_in. intros k _. unfold unblock, G. cbn [fst snd].
+      rewrite M2. reflexivity. }
+    (* the specification's side *)
+    assert (R : regroup (flatten fs) (flat_map flatten (br1 :: rest)) = flat_map G (columns_of (flatten fs))).
+    { unfold regroup. apply flat_map_ext_in. intros k _. unfold G.
+      rewrite filter_flat_map, <- sort_ts_tagc. f_equal. rewrite map_flat_map. apply flat_map_ext_in.
+      intros br Hbr. rewrite flatten_blocks, filter_key_unblocks. destruct k as [n q]. cbn [fst snd].
+      rewrite cells_of_contrib; [reflexivity|]. eapply skel_ok_eq; [|exact Hok].
+      rewrite Forall_forall in Hsk. apply Hsk. exact Hbr. }
+    rewrite L, R. rewrite flatten_blocks, columns_of_unblocks by (apply keys_nodup, Hok).
+    unfold keys. assert (Hnd := keys_nodup fs Hok). unfold keys in Hnd.
+    assert (HG : forall b, In b (blocks fs) -> snd b = [] -> G (fst b) = []).
+    { intros b Hb Hnil. unfold G.
+      assert (E : flat_map (fun br => cells_of br (fst (fst b)) (snd (fst b))) (br1 :: rest) = []).
+      { rewrite <- (flat_map_nil (br1 :: rest)). apply flat_map_ext_in. intros br Hbr.
+        destruct (cells_of br (fst (fst b)) (snd (fst b))) as [|c cs] eqn:Ec; [reflexivity|]. exfalso.
+        assert (Hokb : skel_ok br).
+        { eapply skel_ok_eq; [|exact Hok]. rewrite Forall_forall in Hsk. apply Hsk. exact Hbr. }
+        assert (Hx : In (tagc (fst b) c) (flatten br)).
+        { assert (F := filter_key_unblocks (blocks br) (fst b)). rewrite <- flatten_blocks in F.
+          destruct (fst b) as [n q] eqn:Ek. cbn [fst snd] in Ec. rewrite <- (cells_of_contrib br n q Hokb), Ec in F.
+          assert (Hin : In (tagc (n, q) c) (filter (fun x => key_eqb (n, q) (key_of x)) (flatten br))).
+          { rewrite F. left. reflexivity. }
+          apply filter_In in Hin. tauto. }
+        apply (Hkeys br Hbr) in Hx. rewrite key_of_tagc, flatten_blocks in Hx. apply unblocks_keys in Hx.
+        destruct Hx as (b' & Hb' & Ek & Hne). apply Hne.
+        rewrite (nodup_fst_inj _ b' b Hnd Hb' Hb Ek). exact Hnil. }
+      rewrite E. reflexivity. }
+    clear -HG. induction (blocks fs) as [|b bs IH]; [reflexivity|]. cbn [map flat_map filter].
+    rewrite IH by (intros b' Hb'; apply HG; right; exact Hb').
+    unfold nonempty_block at 2. destruct (snd b) eqn:E.
+    + rewrite (HG b (or_introl eq_refl) E). reflexivity.
+    + reflexivity.
+Qed.
+
+Lemma merge_branches_skel fs brs : skel_ok fs -> Forall (fun br => skel br = skel fs) brs -> brs <> [] ->
+  skel (merge_branches brs) = skel fs.
+Proof.
+  intros Hok Hsk Hne. unfold merge_branches. destruct brs as [|br1 rest]; [congruence|].
+  inversion Hsk as [|? ? Hs1 Hsr]; subst. cbn [fold_left].
+  assert (Hok1 : skel_ok br1) by (eapply skel_ok_eq; eassumption).
+  rewrite (merge_branch_nil br1 Hok1). destruct (merge_all rest br1 Hok1) as [M1 _].
+  { eapply Forall_impl; [|exact Hsr]. intros b Hb. cbn in Hb. congruence. }
+  rewrite skel_map_cols by reflexivity. congruence.
+Qed.
+
+(* ------------------------------------------------------------------ *)
+(* specification side: a filter's output lies in the columns of its input *)
+Lemma col_limit_in n l : forall seen x, In x (col_limit n seen l) -> In x l.
+Proof.
+  induction l as [|y l IH]; intros seen x; cbn [col_limit]; [tauto|]. rewrite in_app_iff.
+  intros [H|H]; [|right; eapply IH; exact H].
+  destruct (length (filter (same_col y) seen) <? n)%nat; [destruct H as [->|[]]; left; reflexivity|destruct H].
+Qed.
+
+Lemma firstn_in {A} n (l : list A) x : In x (firstn n l) -> In x l.
+Proof. intros H. rewrite <- (firstn_skipn n l). apply in_app_iff. auto. Qed.
+Lemma skipn_in {A} n (l : list A) x : In x (skipn n l) -> In x l.
+Proof. intros H. rewrite <- (firstn_skipn n l). apply in_app_iff. auto. Qed.
+
+Lemma fsem_keys f : forall key l coins x,
+  In x (fst (fsem key f l coins)) -> In (key_of x) (map key_of l).
+Proof.
+  induction f as [f IH] using rfilter_ind'. intros key l coins x.
+  assert (Hsub : forall l', (forall y, In y l' -> In y l) -> In x l' -> In (key_of x) (map key_of l)).
+  { intros l' Hl' Hx. apply in_map, Hl', Hx. }
+  destruct f as [b|b|fl|fl|p t e|r|r|r|r|fm s e|s e|s e|n|n|n| |lb|v]; cbn [subs] in IH; cbn [fsem fst].
+  - apply Hsub. auto.
+  - intros [].
+  - (* chain *) revert l coins x Hsub. induction IH as [|g fl Hg _ IHfl]; intros l coins x _.
+    + apply in_map.
+    + destruct (fsem key g l coins) as [l' c'] eqn:E. destruct l' as [|y l'']; [intros []|].
+      intros Hx. apply IHfl in Hx; [|intros; apply in_map; auto]. apply in_map_iff in Hx.
+      destruct Hx as (z & <- & Hz). apply (Hg key l coins). rewrite E. exact Hz.
+  - (* interleave *)
+    match goal with |- context [let '(outs, c') := ?G fl coins in _] => destruct (G fl coins) as [outs c'] end.
+    cbn [fst]. unfold regroup. intros Hx. apply in_flat_map in Hx. destruct Hx as (k & Hk & Hx).
+    apply sort_ts_in, filter_In in Hx. destruct Hx as [_ Hx]. apply key_eqb_eq in Hx. subst k.
+    apply columns_of_in, Hk.
+  - (* condition *) inversion IH as [|? ? Hp Hte]; subst. apply Forall_app in Hte. destruct Hte as [Ht He].
+    destruct (fsem key p l coins) as [o c']. destruct o as [|y o].
+    + destruct e as [g|]; [|intros []]. cbn in He. inversion He as [|? ? Hg _]; subst. apply Hg.
+    + destruct t as [g|]; [|intros []]. cbn in Ht. inversion Ht as [|? ? Hg _]; subst. apply Hg.
+  - destruct (matches r key); [apply Hsub; auto|intros []].
+  - apply Hsub. intros y Hy. apply filter_In in Hy. tauto.
+  - apply Hsub. intros y Hy. apply filter_In in Hy. tauto.
+  - apply Hsub. intros y Hy. apply filter_In in Hy. tauto.
+  - apply Hsub. intros y Hy. apply filter_In in Hy. tauto.
+  - apply Hsub. intros y Hy. apply filter_In in Hy. tauto.
+  - apply Hsub. intros y Hy. apply filter_In in Hy. tauto.
+  - apply Hsub. intros y. apply firstn_in.
+  - apply Hsub. intros y. apply skipn_in.
+  - apply Hsub. intros y. apply col_limit_in.
+  - intros Hx. apply in_map_iff in Hx. destruct Hx as (y & <- & Hy).
+    change (key_of (strip_value y)) with (key_of y). apply in_map, Hy.
+  - intros Hx. apply in_map_iff in Hx. destruct Hx as (y & <- & Hy).
+    change (key_of (apply_label lb y)) with (key_of y). apply in_map, Hy.
+  - destruct coins as [|c cs]; [intros []|]. destruct c; [apply Hsub; auto|intros []].
+Qed.
+
+Lemma fsem_nil key f coins : fst (fsem key f [] coins) = [].
+Proof.
+  assert (H := fsem_keys f key [] coins). destruct (fst (fsem key f [] coins)) as [|x l]; [reflexivity|].
+  exfalso. apply (H x). left. reflexivity.
+Qed.
+
+(* ------------------------------------------------------------------ *)
+(* skeleton preservation: a row that passes a filter keeps its families and columns (possibly
+   without cells), so the distinctness invariant is available at every stage *)
+Definition igo_code (key : bytes) (fs : list family) :=
+  fix go (l : list rfilter) (coins : list bool) : list (list family) * list bool :=
+    match l with
+    | [] => ([], coins)
+    | x :: r => let '(m, fs', c') := feval key x fs coins in
+                let '(rest, c'') := go r c' in
+                ((if m then [fs'] else []) ++ rest, c'')
+    end.
+
+Lemma feval_interleave key l fs coins :
+  feval key (FInterleave l) fs coins =
+  let '(brs, coins') := igo_code key fs l coins in
+  let merged := merge_branches brs in ((0 <? count_cells merged)%nat, merged, coins').
+Proof. reflexivity. Qed.
+
+Lemma feval_chain_cons key x r fs coins :
+  feval key (FChain (x :: r)) fs coins =
+  let '(m, fs', c') := feval key x fs coins in
+  if m then feval key (FChain r) fs' c' else (false, fs', c').
+Proof. reflexivity. Qed.
+
+Lemma feval_skel f : forall key fs coins, skel_ok fs ->
+  fst (fst (feval key f fs coins)) = true -> skel (snd (fst (feval key f fs coins))) = skel fs.
+Proof.
+  induction f as [f IH] using rfilter_ind'. intros key fs coins Hok.
+  destruct f as [b|b|l|l|p t e|r|r|r|r|fm s e|s e|s e|n|n|n| |lb|v]; cbn [subs] in IH;
+    try (cbn [feval fst snd]; intros _; unfold per_cell; apply skel_map_cols; reflexivity);
+    try (cbn [feval fst snd]; reflexivity).
+  - (* chain *) revert fs coins Hok. induction IH as [|x l Hx _ IHl]; intros fs coins Hok; [reflexivity|].
+    rewrite feval_chain_cons. specialize (Hx key fs coins Hok).
+    destruct (feval key x fs coins) as [[m fs'] c']. cbn [fst snd] in Hx. destruct m; [|discriminate].
+    intros Hm. rewrite <- (Hx eq_refl). apply IHl; [|exact Hm]. eapply skel_ok_eq; [apply Hx; reflexivity|exact Hok].
+  - (* interleave *) rewrite feval_interleave.
+    assert (Hgo : forall l', Forall (fun g => forall key fs coins, skel_ok fs ->
+                     fst (fst (feval key g fs coins)) = true -> skel (snd (fst (feval key g fs coins))) = skel fs) l' ->
+                   forall coins, Forall (fun br => skel br = skel fs) (fst (igo_code key fs l' coins))).
+    { intros l' Hl'. induction Hl' as [|x l' Hx _ IHl]; intros cs; cbn [igo_code fst]; [constructor|].
+      specialize (Hx key fs cs Hok). destruct (feval key x fs cs) as [[m fs'] c']. cbn [fst snd] in Hx.
+      specialize (IHl c'). destruct (igo_code key fs l' c') as [rest c'']. cbn [fst] in *.
+      destruct m; cbn [app]; [constructor; auto|assumption]. }
+    specialize (Hgo l IH coins). destruct (igo_code key fs l coins) as [brs coins']. cbn [fst snd] in *.
+    intros Hm. apply merge_branches_skel; [exact Hok|exact Hgo|]. intros ->. cbn in Hm. discriminate.
+  - (* condition *) cbn [feval]. inversion IH as [|? ? Hp Hte]; subst. apply Forall_app in Hte. destruct Hte as [Ht He].
+    destruct (feval key p fs coins) as [[m pfs] c']. destruct (m && negb (is_empty_fams pfs)).
+    + destruct t as [g|]; [|discriminate]. cbn in Ht. inversion Ht as [|? ? Hg _]; subst. apply Hg, Hok.
+    + destruct e as [g|]; [|discriminate]. cbn in He. inversion He as [|? ? Hg _]; subst. apply Hg, Hok.
+  - (* row key *) cbn [feval]. destruct (opt_true (rx_match r key)); reflexivity.
+  - (* row limit *) cbn [feval fst snd]. intros _. apply skel_limit_fams.
+  - (* row offset *) cbn [feval fst snd]. intros _. apply skel_offset_fams.
+  - (* sample *) cbn [feval]. destruct coins; reflexivity.
+Qed.
+
+(* ------------------------------------------------------------------ *)
+(* coins *)
+Fixpoint uses_coins (f : rfilter) : bool :=
+  match f with
+  | FSample _ => true
+  | FChain l | FInterleave l =>
+      (fix any (l : list rfilter) := match l with [] => false | x :: r => uses_coins x || any r end) l
+  | FCondition p t e =>
+      uses_coins p || match t with Some x => uses_coins x | None => false end
+                   || match e with Some x => uses_coins x | None => false end
+  | _ => false
+  end.
+
+(* the match flag is exact: "true" only together with at least one cell *)
+Fixpoint exact_flag (f : rfilter) : bool :=
+  match f with
+  | FPass _ | FSample _ | FCellsPerRowLimit _ | FCellsPerRowOffset _ | FCellsPerColLimit _ => false
+  | FChain l =>
+      (fix lastx (l : list rfilter) :=
+         match l with [] => false | x :: r => match r with [] => exact_flag x | _ => lastx r end end) l
+  | FCondition p t e =>
+      match t with Some x => exact_flag x | None => true end
+      && match e with Some x => exact_flag x | None => true end
+  | _ => true
+  end.
+
+(* in a chain, a stage that may report "match" without a cell is not followed by a sample filter *)
+Fixpoint tails_ok (l : list rfilter) : bool :=
+  match l with
+  | [] => true
+  | x :: r => (exact_flag x || negb (existsb uses_coins r)) && tails_ok r
+  end.
+
+Fixpoint coin_safe (f : rfilter) : bool :=
+  match f with
+  | FChain l =>
+      (fix all (l : list rfilter) := match l with [] => true | x :: r => coin_safe x && all r end) l && tails_ok l
+  | FInterleave l =>
+      (fix all (l : list rfilter) := match l with [] => true | x :: r => coin_safe x && all r end) l
+  | FCondition p t e =>
+      coin_safe p && match t with Some x => coin_safe x | None => true end
+                  && match e with Some x => coin_safe x | None => true end
+  | _ => true
+  end.
+
+Lemma fix_any_existsb (g : rfilter -> bool) l :
+  (fix any (l : list rfilter) := match l with [] => false | x :: r => g x || any r end) l = existsb g l.
+Proof. induction l as [|x r IH]; cbn; [reflexivity|]. rewrite IH. reflexivity. Qed.
+
+Lemma uses_coins_chain l : uses_coins (FChain l) = existsb uses_coins l.
+Proof. cbn [uses_coins]. apply fix_any_existsb. Qed.
+Lemma uses_coins_interleave l : uses_coins (FInterleave l) = existsb uses_coins l.
+Proof. cbn [uses_coins]. apply fix_any_existsb. Qed.
+Lemma coin_safe_chain l : coin_safe (FChain l) = forallb coin_safe l && tails_ok l.
+Proof. cbn [coin_safe]. rewrite fix_all_forallb. reflexivity. Qed.
+Lemma coin_safe_interleave l : coin_safe (FInterleave l) = forallb coin_safe l.
+Proof. cbn [coin_safe]. apply fix_all_forallb. Qed.
+
+(* a filter without a sample filter does not touch the coins *)
+Lemma feval_no_coins f : forall key fs coins, uses_coins f = false -> snd (feval key f fs coins) = coins.
+Proof.
+  induction f as [f IH] using rfilter_ind'. intros key fs coins.
+  destruct f as [b|b|l|l|p t e|r|r|r|r|fm s e|s e|s e|n|n|n| |lb|v]; cbn [subs] in IH;
+    try (intros _; cbn [feval snd]; reflexivity).
+  - (* chain *) rewrite uses_coins_chain. revert fs coins. induction IH as [|x l Hx _ IHl]; intros fs coins Hu; [reflexivity|].
+    cbn [existsb] in Hu. apply orb_false_iff in Hu. destruct Hu as [Hu1 Hu2].
+    rewrite feval_chain_cons. specialize (Hx key fs coins Hu1). destruct (feval key x fs coins) as [[m fs'] c'].
+    cbn [snd] in Hx. subst c'. destruct m; [apply IHl, Hu2|reflexivity].
+  - (* interleave *) rewrite uses_coins_interleave, feval_interleave. intros Hu.
+    assert (Hgo : forall cs, snd (igo_code key fs l cs) = cs).
+    { revert Hu. induction IH as [|x l Hx _ IHl]; intros Hu cs; [reflexivity|].
+      cbn [existsb] in Hu. apply orb_false_iff in Hu. destruct Hu as [Hu1 Hu2]. cbn [igo_code].
+      specialize (Hx key fs cs Hu1). destruct (feval key x fs cs) as [[m fs'] c']. cbn [snd] in Hx. subst c'.
+      specialize (IHl Hu2 cs). destruct (igo_code key fs l cs) as [rest c'']. exact IHl. }
+    specialize (Hgo coins). destruct (igo_code key fs l coins) as [brs c']. exact Hgo.
+  - (* condition *) cbn [uses_coins feval]. intros Hu. apply orb_false_iff in Hu. destruct Hu as [Hu He].
+    apply orb_false_iff in Hu. destruct Hu as [Hp Ht].
+    inversion IH as [|? ? Hp' Hte]; subst. apply Forall_app in Hte. destruct Hte as [Ht' He'].
+    specialize (Hp' key fs coins Hp). destruct (feval key p fs coins) as [[m pfs] c']. cbn [snd] in Hp'. subst c'.
+    destruct (m && negb (is_empty_fams pfs)).
+    + destruct t as [g|]; [|reflexivity]. cbn in Ht'. inversion Ht' as [|? ? Hg _]; subst. apply Hg, Ht.
+    + destruct e as [g|]; [|reflexivity]. cbn in He'. inversion He' as [|? ? Hg _]; subst. apply Hg, He.
+  - (* row key *) intros _. cbn [feval]. destruct (opt_true (rx_match r key)); reflexivity.
+  - (* sample *) discriminate.
+Qed.
+
+Lemma feval_exact f : forall key fs coins, exact_flag f = true ->
+  fst (fst (feval key f fs coins)) = true -> flatten (snd (fst (feval key f fs coins))) <> [].
+Proof.
+  assert (Hcount : forall fs', (0 <? count_cells fs')%nat = true -> flatten fs' <> []).
+  { intros fs' H. rewrite count_pos_flatten, negb_true_iff in H. apply is_empty_fams_false, H. }
+  induction f as [f IH] using rfilter_ind'. intros key fs coins.
+  destruct f as [b|b|l|l|p t e|r|r|r|r|fm s e|s e|s e|n|n|n| |lb|v]; cbn [subs] in IH;
+    try discriminate; try (intros _; cbn [feval fst snd]; apply Hcount).
+  - (* chain *) cbn [exact_flag]. revert fs coins. induction IH as [|x l Hx _ IHl]; intros fs coins He; [discriminate|].
+    rewrite feval_chain_cons. specialize (Hx key fs coins).
+    destruct (feval key x fs coins) as [[m fs'] c']. cbn [fst snd] in Hx. destruct m; [|discriminate].
+    destruct l as [|y l'].
+    + intros _. cbn [feval fst snd]. apply Hx; [exact He|reflexivity].
+    + apply IHl. exact He.
+  - (* interleave *) intros _. rewrite feval_interleave. destruct (igo_code key fs l coins) as [brs c'].
+    cbn [fst snd]. apply Hcount.
+  - (* condition *) cbn [exact_flag feval]. intros He. apply andb_true_iff in He. destruct He as [Het Hee].
+    inversion IH as [|? ? Hp Hte]; subst. apply Forall_app in Hte. destruct Hte as [Ht He].
+    destruct (feval key p fs coins) as [[m pfs] c']. destruct (m && negb (is_empty_fams pfs)).
+    + destruct t as [g|]; [|discriminate]. cbn in Ht. inversion Ht as [|? ? Hg _]; subst. apply Hg, Het.
+    + destruct e as [g|]; [|discriminate]. cbn in He. inversion He as [|? ? Hg _]; subst. apply Hg, Hee.
+  - (* row key *) intros _. cbn [feval]. destruct (opt_true (rx_match r key)); cbn [fst snd]; [apply Hcount|discriminate].
+Qed.
+
+(* ------------------------------------------------------------------ *)
+(* the refinement *)
+Definition refines (key : bytes) (f : rfilter) (fs : list family) (coins : list bool) : Prop :=
+  snd (feval key f fs coins) = snd (fsem key f (flatten fs) coins)
+  /\ (fst (fst (feval key f fs coins)) = true ->
+      flatten (snd (fst (feval key f fs coins))) = fst (fsem key f (flatten fs) coins))
+  /\ (fst (fst (feval key f fs coins)) = false -> fst (fsem key f (flatten fs) coins) = []).
+
+Definition igo_spec (key : bytes) (l : list lcell) :=
+  fix go (fl : list rfilter) (coins : list bool) : list lcell * list bool :=
+    match fl with
+    | [] => ([], coins)
+    | x :: r => let '(o, c1) := fsem key x l coins in
+                let '(rest, c2) := go r c1 in (o ++ rest, c2)
+    end.
+
+Lemma fsem_interleave key fl l coins :
+  fsem key (FInterleave fl) l coins = let '(outs, c') := igo_spec key l fl coins in (regroup l outs, c').
+Proof. reflexivity. Qed.
+
+Lemma fsem_chain_cons key x r l coins :
+  fsem key (FChain (x :: r)) l coins =
+  let '(l', c') := fsem key x l coins in
+  match l' with [] => ([], c') | _ => fsem key (FChain r) l' c' end.
+Proof. reflexivity. Qed.
+
+Lemma chain_refines key l :
+  Forall (fun g => forall fs coins, skel_ok fs -> refines key g fs coins) l -> tails_ok l = true ->
+  forall fs coins, skel_ok fs -> refines key (FChain l) fs coins.
+Proof.
+  induction 1 as [|x r Hx Hr IH]; intros Ht fs coins Hok.
+  - unfold refines. cbn. split; [reflexivity|]. split; [reflexivity|discriminate].
+  - cbn [tails_ok] in Ht. apply andb_true_iff in Ht. destruct Ht as [Ht1 Ht2].
+    specialize (IH Ht2). unfold refines. rewrite feval_chain_cons, fsem_chain_cons.
+    destruct (Hx fs coins Hok) as (Hc & Hm1 & Hm0).
+    assert (Hsk := feval_skel x key fs coins Hok).
+    assert (Hex := feval_exact x key fs coins).
+    destruct (feval key x fs coins) as [[m fs'] c']. destruct (fsem key x (flatten fs) coins) as [o sc].
+    cbn [fst snd] in *. subst sc. destruct m.
+    + specialize (Hm1 eq_refl). specialize (Hsk eq_refl).
+      assert (Hok' : skel_ok fs') by (eapply skel_ok_eq; eassumption).
+      destruct (IH fs' c' Hok') as (Ic & I1 & I0). destruct o as [|y o'].
+      * (* the stage reports a match without a cell: the specification stops here *)
+        destruct (exact_flag x); [exfalso; apply Hex; auto|]. cbn [orb] in Ht1. apply negb_true_iff in Ht1.
+        cbn [fst snd]. split; [|split].
+        -- apply feval_no_coins. rewrite uses_coins_chain. exact Ht1.
+        -- intros Hm. rewrite (I1 Hm), Hm1. apply fsem_nil.
+        -- reflexivity.
+      * rewrite <- Hm1. split; [exact Ic|]. split; [exact I1|exact I0].
+    + rewrite (Hm0 eq_refl). cbn [fst snd]. split; [reflexivity|]. split; [discriminate|reflexivity].
+Qed.
+
+Lemma interleave_go key fs l : skel_ok fs ->
+  Forall (fun g => forall fs coins, skel_ok fs -> refines key g fs coins) l ->
+  forall coins,
+    snd (igo_code key fs l coins) = snd (igo_spec key (flatten fs) l coins)
+    /\ flat_map flatten (fst (igo_code key fs l coins)) = fst (igo_spec key (flatten fs) l coins)
+    /\ Forall (fun br => skel br = skel fs) (fst (igo_code key fs l coins))
+    /\ (forall br, In br (fst (igo_code key fs l coins)) ->
+        forall x, In x (flatten br) -> In (key_of x) (map key_of (flatten fs))).
+Proof.
+  intros Hok. induction 1 as [|x r Hx Hr IH]; intros coins.
+  - cbn. repeat split; auto. intros br [].
+  - cbn [igo_code igo_spec]. destruct (Hx fs coins Hok) as (Hc & Hm1 & Hm0).
+    assert (Hsk := feval_skel x key fs coins Hok).
+    assert (Hk := fsem_keys x key (flatten fs) coins).
+    destruct (feval key x fs coins) as [[m fs'] c']. destruct (fsem key x (flatten fs) coins) as [o sc].
+    cbn [fst snd] in *. subst sc. destruct (IH c') as (Ic & If & Is & Ik).
+    destruct (igo_code key fs r c') as [rest c'']. destruct (igo_spec key (flatten fs) r c') as [orest sc''].
+    cbn [fst snd] in *. split; [exact Ic|]. destruct m; cbn [app flat_map].
+    + rewrite (Hm1 eq_refl), If. split; [reflexivity|]. split; [constructor; auto|].
+      intros br [<-|Hbr]; [|apply Ik, Hbr]. rewrite (Hm1 eq_refl). exact Hk.
+    + rewrite (Hm0 eq_refl), If. cbn [app]. auto.
+Qed.
+
+Lemma Forall_forallb_imp {A} (g : A -> bool) (P : A -> Prop) l :
+  Forall (fun x => g x = true -> P x) l -> forallb g l = true -> Forall P l.
+Proof.
+  induction 1 as [|x l Hx _ IH]; cbn [forallb]; intros H; constructor; apply andb_true_iff in H; tauto.
+Qed.
+
+Lemma refines_all f : fvalid f = true -> coin_safe f = true ->
+  forall key fs coins, skel_ok fs -> refines key f fs coins.
+Proof.
+  induction f as [f IH] using rfilter_ind'. intros Hv Hs key fs coins Hok.
+  assert (Hcnt : forall fs', (0 <? count_cells fs')%nat = false -> flatten fs' = []).
+  { intros fs' H. rewrite count_pos_flatten, negb_false_iff in H. apply is_empty_fams_flatten, H. }
+  assert (Hpc : is_per_cell f = true -> refines key f fs coins).
+  { intros Hp. unfold refines. rewrite (per_cell_sem key f _ coins Hp Hv), <- per_cell_flatten. cbn [fst snd].
+    replace (feval key f fs coins) with ((0 <? count_cells (per_cell f fs))%nat, per_cell f fs, coins)
+      by (destruct f; try discriminate; reflexivity).
+    cbn [fst snd]. split; [reflexivity|]. split; [reflexivity|]. intros H. apply Hcnt in H. exact H. }
+  destruct f as [b|b|l|l|p t e|r|r|r|r|fm s e|s e|s e|n|n|n| |lb|v]; cbn [subs] in IH;
+    try (apply Hpc; reflexivity).
+  - (* pass *) unfold refines. cbn. split; [reflexivity|]. split; [reflexivity|discriminate].
+  - (* block *) unfold refines. cbn. split; [reflexivity|]. split; [discriminate|reflexivity].
+  - (* chain *) rewrite fvalid_chain in Hv. rewrite coin_safe_chain in Hs.
+    apply andb_true_iff in Hv, Hs. destruct Hv as [_ Hv], Hs as [Hs Ht].
+    apply chain_refines; [|exact Ht|exact Hok].
+    clear -IH Hv Hs. induction IH as [|x l Hx _ IHl]; [constructor|]. cbn [forallb] in Hv, Hs.
+    apply andb_true_iff in Hv, Hs. constructor; [|apply IHl; tauto]. intros fs coins. apply Hx; tauto.
+  - (* interleave *) rewrite fvalid_interleave in Hv. rewrite coin_safe_interleave in Hs.
+    apply andb_true_iff in Hv. destruct Hv as [_ Hv].
+    assert (Hl : Forall (fun g => forall fs coins, skel_ok fs -> refines key g fs coins) l).
+    { clear -IH Hv Hs. induction IH as [|x l Hx _ IHl]; [constructor|]. cbn [forallb] in Hv, Hs.
+      apply andb_true_iff in Hv, Hs. constructor; [|apply IHl; tauto]. intros fs coins. apply Hx; tauto. }
+    destruct (interleave_go key fs l Hok Hl coins) as (Gc & Gf & Gs & Gk).
+    unfold refines. rewrite feval_interleave, fsem_interleave.
+    destruct (igo_code key fs l coins) as [brs c']. destruct (igo_spec key (flatten fs) l coins) as [outs sc].
+    cbn [fst snd] in *. subst sc outs.
+    destruct (merge_branches_flatten fs brs Hok Gs Gk) as [M _]. rewrite <- M.
+    split; [reflexivity|]. split; [reflexivity|]. intros H. apply Hcnt, H.
+  - (* condition *) cbn [fvalid coin_safe] in Hv, Hs. apply andb_true_iff in Hv, Hs.
+    destruct Hv as [Hv Hve], Hs as [Hs Hse]. apply andb_true_iff in Hv, Hs.
+    destruct Hv as [Hvp Hvt], Hs as [Hsp Hst].
+    inversion IH as [|? ? Hp Hte]; subst. apply Forall_app in Hte. destruct Hte as [Ht He].
+    destruct (Hp Hvp Hsp key fs coins Hok) as (Pc & P1 & P0).
+    unfold refines. cbn [feval fsem].
+    destruct (feval key p fs coins) as [[m pfs] c']. destruct (fsem key p (flatten fs) coins) as [o sc].
+    cbn [fst snd] in *. subst sc.
+    assert (Hbr : forall g : option rfilter,
+               Forall (fun f => fvalid f = true -> coin_safe f = true ->
+                                forall key fs coins, skel_ok fs -> refines key f fs coins) (opt_list g) ->
+               match g with Some x => fvalid x | None => true end = true ->
+               match g with Some x => coin_safe x | None => true end = true ->
+               let code := match g with Some x => feval key x fs c' | None => (false, fs, c') end in
+               let spec := match g with Some x => fsem key x (flatten fs) c' | None => ([], c') end in
+               snd code = snd spec
+               /\ (fst (fst code) = true -> flatten (snd (fst code)) = fst spec)
+               /\ (fst (fst code) = false -> fst spec = [])).
+    { intros [g|] Hg Hgv Hgs; cbn zeta.
+      - cbn in Hg. inversion Hg as [|? ? Hg' _]; subst. apply (Hg' Hgv Hgs key fs c' Hok).
+      - cbn. split; [reflexivity|]. split; [discriminate|reflexivity]. }
+    assert (Etest : m && negb (is_empty_fams pfs) = match o with [] => false | _ => true end).
+    { destruct m; cbn [andb].
+      - rewrite <- (P1 eq_refl). destruct (is_empty_fams pfs) eqn:E.
+        + apply is_empty_fams_flatten in E. rewrite E. reflexivity.
+        + apply is_empty_fams_false in E. destruct (flatten pfs); [congruence|reflexivity]. 
+      - rewrite (P0 eq_refl). reflexivity. }
+    rewrite Etest. destruct o as [|y o'].
+    + apply (Hbr e He Hve Hse).
+    + apply (Hbr t Ht Hvt Hst).
+  - (* row key regex *) destruct r as [|r]; [discriminate|]. unfold refines. cbn [feval fsem rx_match opt_true matches].
+    destruct (re_match r key); cbn [fst snd].
+    + split; [reflexivity|]. split; [reflexivity|]. intros H. apply Hcnt, H.
+    + split; [reflexivity|]. split; [discriminate|reflexivity].
+  - (* cells per row limit *) unfold refines. cbn [feval fsem fst snd]. rewrite limit_fams_flatten.
+    split; [reflexivity|]. split; [reflexivity|discriminate].
+  - (* cells per row offset *) unfold refines. cbn [feval fsem fst snd]. rewrite offset_fams_flatten.
+    split; [reflexivity|]. split; [reflexivity|discriminate].
+  - (* cells per column limit *) unfold refines. cbn [feval fsem fst snd]. rewrite (percol_flatten _ _ Hok).
+    split; [reflexivity|]. split; [reflexivity|discriminate].
+  - (* sample *) unfold refines. cbn [feval fsem]. destruct coins as [|c cs]; cbn [fst snd].
+    + split; [reflexivity|]. split; [discriminate|reflexivity].
+    + destruct c; (split; [reflexivity|]); (split; [try discriminate; reflexivity|try discriminate; reflexivity]).
+Qed.
+
+(* ------------------------------------------------------------------ *)
+(* C05, main statement.
+
+   FULL statement asked for (for every filter accepted by the validator):
+     forall f key fs coins, fvalid f = true -> fams_ok fs ->
+       let '(m, fs', coins') := feval key f fs coins in
+       let '(out, scoins) := fsem key f (flatten fs) coins in
+       coins' = scoins /\ (m = true -> flatten fs' = out) /\ (m = false -> out = []).
+   It is FALSE of the model (and of the Go code): see [filter_refines_fsem_coins_refuted] and
+   [filter_refines_fsem_cells_refuted] below.  The emulator stops a chain when a stage reports "no
+   match", the specification when a stage outputs no cell; the two differ on the stages that report a
+   match without a cell (pass on an empty row, cells-per-row limit 0, an offset past the end, ...),
+   and then the number of coins consumed by later sample filters differs.  The guard [coin_safe f]
+   excludes exactly that: in every chain, a stage whose match flag is not exact is not followed by a
+   sample filter.  Interleave is covered, at any depth. *)
+Theorem filter_refines_fsem_partial : forall f key fs coins,
+  fvalid f = true -> coin_safe f = true -> fams_ok fs ->
+  let '(m, fs', coins') := feval key f fs coins in
+  let '(out, scoins) := fsem key f (flatten fs) coins in
+  coins' = scoins /\ (m = true -> flatten fs' = out) /\ (m = false -> out = []).
+Proof.
+  intros f key fs coins Hv Hs Hok.
+  assert (R := refines_all f Hv Hs key fs coins (fams_ok_skel_ok fs Hok)). unfold refines in R.
+  destruct (feval key f fs coins) as [[m fs'] c']. destruct (fsem key f (flatten fs) coins) as [out sc].
+  exact R.
+Qed.
+
+(* the same under the weaker invariant that is preserved by every filter (interleave may produce
+   equal timestamps within a column, so [fams_ok] itself is not preserved) *)
+Theorem filter_refines_fsem_skel_partial : forall f key fs coins,
+  fvalid f = true -> coin_safe f = true -> skel_ok fs ->
+  let '(m, fs', coins') := feval key f fs coins in
+  let '(out, scoins) := fsem key f (flatten fs) coins in
+  coins' = scoins /\ (m = true -> flatten fs' = out /\ skel_ok fs') /\ (m = false -> out = []).
+Proof.
+  intros f key fs coins Hv Hs Hok.
+  assert (R := refines_all f Hv Hs key fs coins Hok). unfold refines in R.
+  assert (K := feval_skel f key fs coins Hok).
+  destruct (feval key f fs coins) as [[m fs'] c']. destruct (fsem key f (flatten fs) coins) as [out sc].
+  cbn [fst snd] in *. destruct R as (R1 & R2 & R3). split; [exact R1|]. split; [|exact R3].
+  intros Hm. split; [apply R2, Hm|]. eapply skel_ok_eq; [apply K, Hm|exact Hok].
+Qed.
+
+(* filters without a sample filter are all covered *)
+Lemma no_coins_tails_ok l : existsb uses_coins l = false -> tails_ok l = true.
+Proof.
+  induction l as [|x r IH]; cbn [existsb tails_ok]; [reflexivity|]. intros H. apply orb_false_iff in H.
+  destruct H as [_ H]. rewrite H, (IH H). cbn [negb]. rewrite orb_true_r. reflexivity.
+Qed.
+
+Lemma no_coins_safe f : uses_coins f = false -> coin_safe f = true.
+Proof.
+  induction f as [f IH] using rfilter_ind'.
+  destruct f as [b|b|l|l|p t e|r|r|r|r|fm s e|s e|s e|n|n|n| |lb|v]; cbn [subs] in IH; try reflexivity.
+  - rewrite uses_coins_chain, coin_safe_chain. intros H. rewrite (no_coins_tails_ok l H), andb_true_r.
+    induction IH as [|x l Hx _ IHl]; [reflexivity|]. cbn [existsb forallb] in *. apply orb_false_iff in H.
+    rewrite Hx, IHl; tauto.
+  - rewrite uses_coins_interleave, coin_safe_interleave. intros H.
+    induction IH as [|x l Hx _ IHl]; [reflexivity|]. cbn [existsb forallb] in *. apply orb_false_iff in H.
+    rewrite Hx, IHl; tauto.
+  - cbn [uses_coins coin_safe]. intros H. apply orb_false_iff in H. destruct H as [H He].
+    apply orb_false_iff in H. destruct H as [Hp Ht].
+    inversion IH as [|? ? Hp' Hte]; subst. apply Forall_app in Hte. destruct Hte as [Ht' He'].
+    rewrite (Hp' Hp). cbn [andb].
+    assert (Et : match t with Some x => coin_safe x | None => true end = true).
+    { destruct t as [g|]; [|reflexivity]. cbn in Ht'. inversion Ht'; subst. auto. }
+    assert (Ee : match e with Some x => coin_safe x | None => true end = true).
+    { destruct e as [g|]; [|reflexivity]. cbn in He'. inversion He'; subst. auto. }
+    rewrite Et, Ee. reflexivity.
+Qed.
+
+Theorem filter_refines_fsem_nosample : forall f key fs coins,
+  fvalid f = true -> uses_coins f = false -> fams_ok fs ->
+  let '(m, fs', coins') := feval key f fs coins in
+  let '(out, scoins) := fsem key f (flatten fs) coins in
+  coins' = coins /\ scoins = coins /\ (m = true -> flatten fs' = out) /\ (m = false -> out = []).
+Proof.
+  intros f key fs coins Hv Hu Hok.
+  assert (R := filter_refines_fsem_partial f key fs coins Hv (no_coins_safe f Hu) Hok).
+  assert (C := feval_no_coins f key fs coins Hu).
+  destruct (feval key f fs coins) as [[m fs'] c']. destruct (fsem key f (flatten fs) coins) as [out sc].
+  cbn [snd] in C. destruct R as (R1 & R2 & R3). subst. auto.
+Qed.
+
+(* ReadRows level: scan_rows outputs the row iff "m = true and scrubbing leaves something" *)
+Theorem row_output_iff_partial : forall tf f key fs coins,
+  fvalid f = true -> coin_safe f = true -> fams_ok fs -> all_known tf fs ->
+  let '(m, fs', _) := feval key f fs coins in
+  (m = true /\ scrub_fams tf fs' <> []) <-> fst (fsem key f (flatten fs) coins) <> [].
+Proof.
+  intros tf f key fs coins Hv Hs Hok Hk.
+  assert (R := filter_refines_fsem_partial f key fs coins Hv Hs Hok).
+  assert (K := feval_all_known tf key f fs coins Hk).
+  destruct (feval key f fs coins) as [[m fs'] c']. destruct (fsem key f (flatten fs) coins) as [out sc].
+  cbn [fst snd] in *. destruct R as (_ & R1 & R0). rewrite (scrub_fams_nonempty tf fs' K). split.
+  - intros [Hm Hne]. rewrite <- (R1 Hm). exact Hne.
+  - intros Hne. destruct m; [|exfalso; apply Hne, R0; reflexivity]. split; [reflexivity|].
+    rewrite (R1 eq_refl). exact Hne.
+Qed.
+
+(* a checker for the row invariant, for the examples *)
+Fixpoint nodupb (l : list bytes) : bool :=
+  match l with [] => true | x :: r => negb (existsb (beqb x) r) && nodupb r end.
+
+Lemma nodupb_sound l : nodupb l = true -> NoDup l.
+Proof.
+  induction l as [|x r IH]; cbn [nodupb]; intros H; constructor; apply andb_true_iff in H; destruct H as [H1 H2].
+  - intros Hin. apply negb_true_iff in H1. assert (E : existsb (beqb x) r = true).
+    { apply existsb_exists. exists x. split; [exact Hin|apply beqb_refl]. }
+    congruence.
+  - apply IH, H2.
+Qed.
+
+Definition fams_okb (fs : list family) : bool :=
+  nodupb (map fam_name fs)
+  && forallb (fun f => nodupb (map col_q (fam_cols f)) && forallb (fun c => descb (col_cells c)) (fam_cols f)) fs.
+
+Lemma fams_okb_sound fs : fams_okb fs = true -> fams_ok fs.
+Proof.
+  unfold fams_okb, fams_ok. intros H. apply andb_true_iff in H. destruct H as [H1 H2].
+  split; [apply nodupb_sound, H1|]. apply Forall_forall. intros f Hf.
+  rewrite forallb_forall in H2. specialize (H2 f Hf). apply andb_true_iff in H2. destruct H2 as [H2 H3].
+  split; [apply nodupb_sound, H2|]. apply Forall_forall. intros c Hc. rewrite forallb_forall in H3.
+  apply descb_sound, H3, Hc.
+Qed.
+
+(* ---- the unguarded statement is false ---- *)
+Definition rf_row : list family :=
+  [mkFam (H 0x0166) [mkCol (H 0x0171) [mkCell 1000 (H 0x0176) []]]].
+
+Lemma rf_row_ok : fams_ok rf_row.
+Proof. apply fams_okb_sound. reflexivity. Qed.
+
+(* coins: limit 0 reports a match with no cell, the chain goes on and the sample filter eats a coin;
+   the specification has stopped *)
+Lemma filter_refines_fsem_coins_refuted :
+  exists f key fs coins, fvalid f = true /\ fams_ok fs
+    /\ snd (feval key f fs coins) <> snd (fsem key f (flatten fs) coins).
+Proof.
+  exists (FChain [FCellsPerRowLimit 0; FSample true]), [], rf_row, [true].
+  split; [reflexivity|]. split; [exact rf_row_ok|]. vm_compute. discriminate.
+Qed.
+
+(* cells: inside an interleave the misaligned coin changes which branch lets the row through *)
+Lemma filter_refines_fsem_cells_refuted :
+  exists f key fs coins, fvalid f = true /\ fams_ok fs
+    /\ fst (fst (feval key f fs coins)) = true
+    /\ flatten (snd (fst (feval key f fs coins))) <> fst (fsem key f (flatten fs) coins).
+Proof.
+  exists (FInterleave [FChain [FCellsPerRowLimit 0; FSample true]; FSample true]), [], rf_row, [false; true].
+  split; [reflexivity|]. split; [exact rf_row_ok|]. split; [reflexivity|]. vm_compute. discriminate.
+Qed.
+
+(* the literal "first appearance in the concatenated branch outputs" reading of interleave is not
+   what the emulator does: a column emptied by an early branch keeps its place in the row *)
+Lemma interleave_first_appearance_refuted :
+  exists f fs, fvalid f = true /\ fams_ok fs /\ coin_safe f = true
+    /\ let outs := flatten (snd (fst (feval [] f fs []))) in
+       map key_of outs = [(H 0x0166, H 0x0171); (H 0x0166, H 0x0172); (H 0x0166, H 0x0172)]   (* f:q, then f:r: row order *)
+       /\ map key_of (fst (fsem [] (FCellsPerRowOffset 1) (flatten fs) [])
+                      ++ fst (fsem [] (FPass true) (flatten fs) []))
+          = [(H 0x0166, H 0x0172); (H 0x0166, H 0x0171); (H 0x0166, H 0x0172)].  (* f:r appears first *)
+Proof.
+  exists (FInterleave [FCellsPerRowOffset 1; FPass true]),
+         [mkFam (H 0x0166) [mkCol (H 0x0171) [mkCell 1000 (H 0x0176) []];
+                            mkCol (H 0x0172) [mkCell 1000 (H 0x0177) []]]].
+  split; [reflexivity|]. split; [|split; [reflexivity|vm_compute; split; reflexivity]].
+  apply fams_okb_sound. reflexivity.
+Qed.
+
+(* non-vacuity of the main theorem: a valid, coin-safe filter with chain, interleave, condition and
+   sample, on a well-formed two-column row; both sides compute the same non-trivial result *)
+Definition nv_filter : rfilter :=
+  FChain [FSample true;
+          FInterleave [FCondition (FQualRegex (RxOk (RLit 113))) (Some FStrip) (Some (FLabel (H 0x0178)));
+                       FChain [FCellsPerColLimit 1; FValueRegex (RxOk (RStar RAnyNoNL))]];
+          FCellsPerRowOffset 1].
+Definition nv_row : list family :=
+  [mkFam (H 0x0166) [mkCol (H 0x0171) [mkCell 2000 (H 0x0176) []; mkCell 1000 (H 0x0175) []];
+                     mkCol (H 0x0172) [mkCell 1000 (H 0x0177) []]]].
+
+Example filter_refines_nonvacuous :
+  fvalid nv_filter = true /\ coin_safe nv_filter = true /\ uses_coins nv_filter = true /\ fams_ok nv_row
+  /\ feval [] nv_filter nv_row [true; false]
+     = (true,
+        [mkFam (H 0x0166) [mkCol (H 0x0171) [mkCell 2000 (H 0x0176) []; mkCell 1000 [] []];
+                           mkCol (H 0x0172) [mkCell 1000 [] []; mkCell 1000 (H 0x0177) []]]],
+        [false])
+  /\ fsem [] nv_filter (flatten nv_row) [true; false]
+     = ([(H 0x0166, H 0x0171, mkCell 2000 (H 0x0176) []); (H 0x0166, H 0x0171, mkCell 1000 [] []);
+         (H 0x0166, H 0x0172, mkCell 1000 [] []); (H 0x0166, H 0x0172, mkCell 1000 (H 0x0177) [])], [false]).
+Proof.
+  split; [reflexivity|]. split; [reflexivity|]. split; [reflexivity|]. split.
+  - apply fams_okb_sound. reflexivity.
+  - split; vm_compute; reflexivity.
+Qed.
